@@ -1343,4 +1343,1876 @@ theorem kdiff_congr (b a a' : List Key) (h : ∀ k, k ∈ a ↔ k ∈ a') : kdif
     simp [hk, hk']
 
 
+
+/-! ## sparse refinement -/
+
+def optRes (o : Option Val) : Res Val :=
+  match o with
+  | some v => .ok v
+  | none => .error .keyError
+
+/-- well-formed eager sparse row: a dict (distinct keys); the label entry exists -/
+structure WFS (e : EagerS) : Prop where
+  nodup : (e.d.map (·.1)).Nodup
+  lab : ∀ k t, e.lab = some (k, t) → (dget e.d k).isSome
+
+/-- the lazy sparse row `r` is indistinguishable from the eager dict `e.d` (label part apart).
+`r.leak` are the hidden raw keys a header-mapped LazySparse base additionally answers to: by-key access is
+exact for every other key.  `items()` is the eager dict in the model's order (the code's order of the
+"not sparse" extras is a set order; observations compare dicts as finite maps). -/
+structure RefS (r : SRow) (e : EagerS) : Prop where
+  get : ∀ k, k ∉ r.leak → r.get k = optRes (dget e.d k)
+  items : r.items = .ok e.d
+  keys : ∃ ks, r.keys = .ok ks ∧ ks.Nodup ∧ ∀ k, k ∈ ks ↔ (dget e.d k).isSome
+  len : r.len = .ok e.d.length
+  miss : r.missing.toOption = e.miss
+  inv : r.invOf = e.inv
+  leakPos : ∀ k ∈ r.leak, ∃ i, k = .pos i
+  leakInv : ∀ k ∈ r.leak, ∃ n, dget e.inv k = some (.name n)
+  leakAll : ∀ k, (dget e.inv k).isSome → r.leak ≠ [] → k ∈ r.leak
+
+theorem contains_iff_mem (l : List Key) (k : Key) : l.contains k = true ↔ k ∈ l := by
+  simp
+
+theorem length_of_keys {ks : List Key} {d : Dict} (hk : ks.Nodup) (hd : (d.map (·.1)).Nodup)
+    (h : ∀ k, k ∈ ks ↔ (dget d k).isSome) : ks.length = d.length := by
+  have := length_eq_of_same_members ks (d.map (·.1)) hk hd (fun k => by rw [h k, dget_isSome_iff_mem])
+  simpa using this
+
+theorem refS_plain (d : Dict) (hn : (d.map (·.1)).Nodup) (lab) : RefS (.plain d) ⟨d, lab, none, []⟩ where
+  get := by intro k _; simp only [SRow.get, optRes]; cases dget d k <;> rfl
+  items := rfl
+  keys := ⟨d.map (·.1), rfl, hn, fun k => (dget_isSome_iff_mem d k).symm⟩
+  len := rfl
+  miss := rfl
+  inv := rfl
+  leakPos := by intro k hk; simp [SRow.leak] at hk
+  leakInv := by intro k hk; simp [SRow.leak] at hk
+  leakAll := by intro k hk; simp [dget] at hk
+
+theorem nodup_filter_keys {d : Dict} (q : Key → Bool) (hn : (d.map (·.1)).Nodup) :
+    ((d.filter (fun p => q p.1)).map (·.1)).Nodup := by
+  have : ((d.filter (fun p => q p.1)).map (·.1)).Sublist (d.map (·.1)) := (List.filter_sublist).map _
+  exact this.nodup hn
+
+theorem refS_drop {r : SRow} {e : EagerS} (h : RefS r e) (hw : WFS e) (ds : List Key) (lab) :
+    RefS (.drop r ds) ⟨e.d.filter (fun p => !ds.contains p.1), lab, e.miss, e.inv⟩ := by
+  obtain ⟨ks, hks, hknd, hkm⟩ := h.keys
+  have hkeys : ∀ k, k ∈ ks.filter (fun k => !ds.contains k) ↔ (dget (e.d.filter (fun p => !ds.contains p.1)) k).isSome := by
+    intro k
+    rw [List.mem_filter, hkm k, dget_filter_key e.d (fun k => !ds.contains k) k]
+    by_cases hc : k ∈ ds <;> simp [hc]
+  have hknd' : (ks.filter (fun k => !ds.contains k)).Nodup := (List.filter_sublist).nodup hknd
+  refine ⟨?_, by simp [SRow.items, h.items],
+    ⟨ks.filter (fun k => !ds.contains k), by simp [SRow.keys, hks], hknd', hkeys⟩, ?_, h.miss, h.inv, h.leakPos, h.leakInv, h.leakAll⟩
+  · intro k hk
+    simp only [SRow.get, dget_filter_key e.d (fun k => !ds.contains k) k]
+    by_cases hc : k ∈ ds
+    · simp [hc, optRes]
+    · simp [hc, h.get k hk]
+  · simp only [SRow.len, SRow.keys, hks]
+    exact congrArg Except.ok (length_of_keys hknd' (nodup_filter_keys (fun k => !ds.contains k) hw.nodup) hkeys)
+
+/-- the eager dict after LabelRows: the label entry is made explicit (an absent label is 0) -/
+def labelDict (d : Dict) (key : Key) : Dict := if (d.map (·.1)).contains key then d else d ++ [(key, .int 0)]
+
+theorem dget_labelDict (d : Dict) (key k : Key) :
+    dget (labelDict d key) k = match dget d k with | some v => some v | none => if k = key then some (.int 0) else none := by
+  unfold labelDict
+  by_cases hc : (d.map (·.1)).contains key = true
+  · rw [if_pos hc]
+    cases hd : dget d k with
+    | some v => rfl
+    | none =>
+      have hk : k ∉ d.map (·.1) := (dget_none_iff_not_mem d k).1 hd
+      have hkey : key ∈ d.map (·.1) := (contains_iff_mem _ _).1 hc
+      have : k ≠ key := fun h => hk (h ▸ hkey)
+      simp [this]
+  · rw [if_neg hc, dget_append]
+    cases hd : dget d k with
+    | some v => rfl
+    | none =>
+      by_cases hk : k = key
+      · subst hk; simp [dget]
+      · have : ¬ key = k := fun h => hk h.symm
+        simp [dget, hk, this]
+
+theorem nodup_labelDict {d : Dict} (key : Key) (hn : (d.map (·.1)).Nodup) : ((labelDict d key).map (·.1)).Nodup := by
+  unfold labelDict
+  by_cases hc : (d.map (·.1)).contains key = true
+  · rw [if_pos hc]; exact hn
+  · have hkey : key ∉ d.map (·.1) := fun h => hc ((contains_iff_mem _ _).2 h)
+    rw [if_neg hc]
+    simp only [List.map_append, List.map_cons, List.map_nil]
+    rw [List.nodup_append]
+    refine ⟨hn, by simp, ?_⟩
+    intro a ha b hb hab
+    simp at hb; subst hb; subst hab; exact hkey ha
+
+theorem refS_label {r : SRow} {e : EagerS} (h : RefS r e) (hw : WFS e) (key : Key) (t : Option String) (lab) :
+    RefS (.label r key t) ⟨labelDict e.d key, lab, e.miss, e.inv⟩ := by
+  obtain ⟨ks, hks, hknd, hkm⟩ := h.keys
+  have hkeys : ∀ k, k ∈ kunion ks [key] ↔ (dget (labelDict e.d key) k).isSome := by
+    intro k
+    rw [mem_kunion, hkm k, dget_labelDict]
+    cases hd : dget e.d k with
+    | some v => simp
+    | none => by_cases hk : k = key <;> simp [hk]
+  have hknd' := nodup_kunion ks [key] hknd
+  refine ⟨?_, ?_, ⟨kunion ks [key], by simp [SRow.keys, hks], hknd', hkeys⟩, ?_, h.miss, h.inv, h.leakPos, h.leakInv, h.leakAll⟩
+  · intro k hk
+    simp only [SRow.get, h.get k hk, dget_labelDict]
+    cases hd : dget e.d k with
+    | some v => rfl
+    | none => by_cases hk : k = key <;> simp [optRes, hk]
+  · simp only [SRow.items, h.items, labelDict]
+    split <;> rfl
+  · simp only [SRow.len, SRow.keys, hks]
+    exact congrArg Except.ok (length_of_keys hknd' (nodup_labelDict key hw.nodup) hkeys)
+
+
+theorem applyEntry_spec {f : Key → Val → Res Val} {d t : Dict} (h : mapMRes (applyEntry f) d = .ok t) :
+    t.map (·.1) = d.map (·.1) ∧
+    (∀ k, dget t k = match dget d k with | some v => (f k v).toOption | none => none) ∧
+    (∀ p ∈ d, ∃ v', f p.1 p.2 = .ok v') := by
+  induction d generalizing t with
+  | nil => simp [mapMRes] at h; subst h; simp [dget]
+  | cons p rest ih =>
+    obtain ⟨x, y⟩ := p
+    simp only [mapMRes, applyEntry] at h
+    cases hf : f x y with
+    | error er => simp [hf] at h
+    | ok v' =>
+      simp only [hf] at h
+      cases hr : mapMRes (applyEntry f) rest with
+      | error er => simp [hr] at h
+      | ok t' =>
+        simp [hr] at h; subst h
+        obtain ⟨h1, h2, h3⟩ := ih hr
+        refine ⟨by simp [h1], ?_, ?_⟩
+        · intro k
+          simp only [dget]
+          by_cases hx : x = k
+          · subst hx; simp [hf, Except.toOption]
+          · simp [hx, h2 k]
+        · intro p hp
+          rcases List.mem_cons.1 hp with rfl | hp
+          · exact ⟨v', hf⟩
+          · exact h3 p hp
+
+theorem applyEntry_total {f : Key → Val → Res Val} {d : Dict} (h : ∀ p ∈ d, ∃ v', f p.1 p.2 = .ok v') :
+    ∃ t, mapMRes (applyEntry f) d = .ok t := by
+  induction d with
+  | nil => exact ⟨[], rfl⟩
+  | cons p rest ih =>
+    obtain ⟨v', hv⟩ := h p (by simp)
+    obtain ⟨t, ht⟩ := ih (fun q hq => h q (by simp [hq]))
+    exact ⟨(p.1, v') :: t, by simp [mapMRes, applyEntry, hv, ht]⟩
+
+theorem zeroEntry_spec {g : Key → Val → Res Val} {ks : List Key} {t : Dict} (h : mapMRes (zeroEntry g) ks = .ok t) :
+    t.map (·.1) = ks ∧
+    (∀ k, dget t k = if k ∈ ks then (g k (.str "0")).toOption else none) ∧
+    (∀ k ∈ ks, ∃ v, g k (.str "0") = .ok v) := by
+  induction ks generalizing t with
+  | nil => simp [mapMRes] at h; subst h; simp [dget]
+  | cons x rest ih =>
+    simp only [mapMRes, zeroEntry] at h
+    cases hf : g x (.str "0") with
+    | error er => simp [hf] at h
+    | ok v' =>
+      simp only [hf] at h
+      cases hr : mapMRes (zeroEntry g) rest with
+      | error er => simp [hr] at h
+      | ok t' =>
+        simp [hr] at h; subst h
+        obtain ⟨h1, h2, h3⟩ := ih hr
+        refine ⟨by simp [h1], ?_, ?_⟩
+        · intro k
+          simp only [dget, List.mem_cons]
+          by_cases hx : x = k
+          · subst hx; simp [hf, Except.toOption]
+          · have : ¬ k = x := fun h' => hx h'.symm
+            simp [hx, this, h2 k]
+        · intro k hk
+          rcases List.mem_cons.1 hk with rfl | hk
+          · exact ⟨v', hf⟩
+          · exact h3 k hk
+
+theorem zeroEntry_congr {g g' : Key → Val → Res Val} {ks : List Key} (h : ∀ k ∈ ks, g k (.str "0") = g' k (.str "0")) :
+    mapMRes (zeroEntry g) ks = mapMRes (zeroEntry g') ks := by
+  induction ks with
+  | nil => rfl
+  | cons x rest ih =>
+    simp only [mapMRes, zeroEntry, h x (by simp), ih (fun k hk => h k (by simp [hk]))]
+
+theorem mem_nspOf {enc : List (Key × Enc)} {k : Key} (h : k ∈ nspOf enc) : ∃ e, dget enc k = some e := by
+  simp only [nspOf, List.mem_map, List.mem_filter] at h
+  obtain ⟨p, ⟨hp, _⟩, rfl⟩ := h
+  have : p.1 ∈ enc.map (·.1) := List.mem_map.2 ⟨p, hp, rfl⟩
+  have := (dget_isSome_iff_mem enc p.1).2 this
+  cases hd : dget enc p.1 with
+  | none => simp [hd] at this
+  | some e => exact ⟨e, rfl⟩
+
+theorem encZero_eq {enc : List (Key × Enc)} {k : Key} (h : k ∈ nspOf enc) (v : Val) :
+    encZero enc k v = (encOf enc k).apply v := by
+  obtain ⟨e, he⟩ := mem_nspOf h
+  simp [encZero, encOf, he]
+
+/-- the dict produced by the eager sparse encoding, as a finite map -/
+theorem encodeDictN_spec {enc : List (Key × Enc)} {nsp : List Key} {app : Enc → Val → Res Val} {d d' : Dict}
+    (hn : (d.map (·.1)).Nodup) (h : encodeDictN enc nsp app d = .ok d') :
+    (d'.map (·.1)).Nodup ∧
+    (∀ k, dget d' k = match dget d k with
+      | some v => (app (encOf enc k) v).toOption
+      | none => if k ∈ nsp then (app (encOf enc k) (.str "0")).toOption else none) ∧
+    (∀ p ∈ d, ∃ v', app (encOf enc p.1) p.2 = .ok v') ∧
+    (∀ k ∈ nsp, dget d k = none → ∃ v0, app (encOf enc k) (.str "0") = .ok v0) ∧
+    ∃ t1 t2, mapMRes (applyEntry (fun k v => app (encOf enc k) v)) d = .ok t1 ∧
+      mapMRes (zeroEntry (fun k v => app (encOf enc k) v)) (kdiff nsp (d.map (·.1))) = .ok t2 ∧ d' = t1 ++ t2 := by
+  simp only [encodeDictN] at h
+  cases h1 : mapMRes (applyEntry (fun k v => app (encOf enc k) v)) d with
+  | error er => simp [h1] at h
+  | ok t1 =>
+    simp only [h1] at h
+    cases h2 : mapMRes (zeroEntry (fun k v => app (encOf enc k) v)) (kdiff nsp (d.map (·.1))) with
+    | error er => simp [h2] at h
+    | ok t2 =>
+      simp [h2] at h; subst h
+      obtain ⟨a1, a2, a3⟩ := applyEntry_spec h1
+      obtain ⟨b1, b2, b3⟩ := zeroEntry_spec h2
+      refine ⟨?_, ?_, a3, ?_, t1, t2, rfl, rfl, rfl⟩
+      · simp only [List.map_append, a1, b1]
+        rw [List.nodup_append]
+        refine ⟨hn, nodup_kdiff _ _, ?_⟩
+        intro x hx y hy hxy; subst hxy
+        exact ((mem_kdiff _ _ _).1 hy).2 hx
+      · intro k
+        rw [dget_append, a2 k]
+        cases hd : dget d k with
+        | some v =>
+          obtain ⟨v', hv'⟩ := a3 (k, v) (dget_some_mem hd)
+          simp only at hv'
+          simp [hv', Except.toOption]
+        | none =>
+          have hk : k ∉ d.map (·.1) := (dget_none_iff_not_mem d k).1 hd
+          simp only [b2 k, mem_kdiff]
+          by_cases hm : k ∈ nsp <;> simp [hm, hk]
+      · intro k hk hd
+        have hk' : k ∉ d.map (·.1) := (dget_none_iff_not_mem d k).1 hd
+        exact b3 k ((mem_kdiff _ _ _).2 ⟨hk, hk'⟩)
+
+
+
+theorem refS_encode {r : SRow} {e : EagerS} (h : RefS r e) (hw : WFS e) (enc : List (Key × Enc)) (d' : Dict)
+    (hd : encodeDictE enc Enc.apply e.d = .ok d') :
+    RefS (.encode r enc (nspOf enc)) { e with d := d' } ∧ (d'.map (·.1)).Nodup := by
+  obtain ⟨ks, hks, hknd, hkm⟩ := h.keys
+  obtain ⟨hdn, hdg, hsucc, hzero, t1, t2, ht1, ht2, hdd⟩ := encodeDictN_spec hw.nodup hd
+  have ht2' : mapMRes (zeroEntry (encZero enc)) (kdiff (nspOf enc) (e.d.map (·.1))) = .ok t2 := by
+    rw [← ht2]
+    apply zeroEntry_congr
+    intro k hk
+    exact encZero_eq ((mem_kdiff _ _ _).1 hk).1 _
+  have hkeys : ∀ k, k ∈ kunion ks (nspOf enc) ↔ (dget d' k).isSome := by
+    intro k
+    rw [mem_kunion, hkm k, hdg k]
+    cases hdk : dget e.d k with
+    | some v =>
+      obtain ⟨v', hv'⟩ := hsucc (k, v) (dget_some_mem hdk)
+      simp only at hv'
+      simp [hv', Except.toOption]
+    | none =>
+      by_cases hm : k ∈ nspOf enc
+      · obtain ⟨v0, hv0⟩ := hzero k hm hdk
+        simp [hm, hv0, Except.toOption]
+      · simp [hm]
+  have hknd' := nodup_kunion ks (nspOf enc) hknd
+  refine ⟨⟨?_, ?_, ⟨kunion ks (nspOf enc), by simp [SRow.keys, hks], hknd', hkeys⟩, ?_, h.miss, h.inv, h.leakPos, h.leakInv, h.leakAll⟩, hdn⟩
+  · intro k hk
+    simp only [SRow.get, h.get k hk, hdg k]
+    cases hdk : dget e.d k with
+    | some v =>
+      obtain ⟨v', hv'⟩ := hsucc (k, v) (dget_some_mem hdk)
+      simp only at hv'
+      simp [optRes, hv', Except.toOption]
+    | none =>
+      simp only [optRes]
+      by_cases hm : k ∈ nspOf enc
+      · obtain ⟨v0, hv0⟩ := hzero k hm hdk
+        simp [hm, hv0, Except.toOption]
+      · simp [hm]
+  · simp only [SRow.items, h.items, ht1, ht2', hdd]
+  · simp only [SRow.len, SRow.keys, hks]
+    exact congrArg Except.ok (length_of_keys hknd' hdn hkeys)
+
+/-! ### renaming keys through a bijective header map -/
+
+def swapList (m : KMap) : KMap := m.map (fun p => (p.2, p.1))
+
+theorem swapMap_eq (fwd : KMap) (h : (fwd.map (·.2)).Nodup) : swapMap fwd = swapList fwd := by
+  have := foldl_dset_append ([] : KMap) (swapList fwd) (by simpa [swapList, Function.comp_def] using h) (by simp)
+  simp only [List.nil_append] at this
+  rw [← this]
+  simp only [swapMap, swapList, List.foldl_map]
+
+theorem snd_inj_of_nodup {l : KMap} (h : (l.map (·.2)).Nodup) {a b n : Key} (ha : (a, n) ∈ l) (hb : (b, n) ∈ l) : a = b := by
+  induction l with
+  | nil => simp at ha
+  | cons p t ih =>
+    simp only [List.map_cons, List.nodup_cons] at h
+    rcases List.mem_cons.1 ha with rfl | ha'
+    · rcases List.mem_cons.1 hb with hb' | hb'
+      · exact (Prod.mk.inj hb').1.symm ▸ rfl
+      · exact absurd (List.mem_map.2 ⟨(b, n), hb', rfl⟩) h.1
+    · rcases List.mem_cons.1 hb with rfl | hb'
+      · exact absurd (List.mem_map.2 ⟨(a, n), ha', rfl⟩) h.1
+      · exact ih h.2 ha' hb'
+
+structure Bij (inv : KMap) : Prop where
+  keys : (inv.map (·.1)).Nodup
+  vals : (inv.map (·.2)).Nodup
+
+theorem Bij.inj {inv : KMap} (hb : Bij inv) {a b n : Key} (ha : dget inv a = some n) (hb' : dget inv b = some n) : a = b :=
+  snd_inj_of_nodup hb.vals (dget_some_mem ha) (dget_some_mem hb')
+
+theorem Bij.fwd_iff {inv : KMap} (hb : Bij inv) (n k : Key) : dget (swapList inv) n = some k ↔ dget inv k = some n := by
+  have hk : ((swapList inv).map (·.1)).Nodup := by simpa [swapList, Function.comp_def] using hb.vals
+  constructor
+  · intro h
+    have := dget_some_mem h
+    simp only [swapList, List.mem_map] at this
+    obtain ⟨p, hp, hpe⟩ := this
+    obtain ⟨x, y⟩ := p
+    simp only [Prod.mk.injEq] at hpe
+    obtain ⟨rfl, rfl⟩ := hpe
+    exact dget_of_mem_nodup hb.keys hp
+  · intro h
+    have := dget_some_mem h
+    exact dget_of_mem_nodup hk (List.mem_map.2 ⟨(k, n), this, rfl⟩)
+
+/-- renaming a dict through a bijective map: lookups go through the inverse map -/
+theorem renameE_spec {inv : KMap} (hb : Bij inv) {d d' : Dict} (h : renameE inv d = .ok d') :
+    d'.length = d.length ∧
+    (∀ n, dget d' n = match dget (swapList inv) n with | some k => dget d k | none => none) ∧
+    ((d.map (·.1)).Nodup → (d'.map (·.1)).Nodup) ∧
+    (∀ k ∈ d.map (·.1), ∃ n, dget inv k = some n) := by
+  induction d generalizing d' with
+  | nil => simp [renameE, mapMRes] at h; subst h; simp [dget]; intro n; split <;> rfl
+  | cons p rest ih =>
+    obtain ⟨x, y⟩ := p
+    simp only [renameE, mapMRes, renameEntry] at h
+    cases hx : dget inv x with
+    | none => simp [hx] at h
+    | some nx =>
+      simp only [hx] at h
+      cases hr : mapMRes (renameEntry inv) rest with
+      | error er => simp [hr] at h
+      | ok t =>
+        simp [hr] at h; subst h
+        obtain ⟨h1, h2, h3, h4⟩ := ih (d' := t) (by simpa [renameE] using hr)
+        refine ⟨by simp [h1], ?_, ?_, ?_⟩
+        · intro n
+          simp only [dget]
+          by_cases hn : nx = n
+          · subst hn
+            have := (hb.fwd_iff nx x).2 hx
+            simp [this]
+          · simp only [hn, if_false, h2 n]
+            cases hf : dget (swapList inv) n with
+            | none => rfl
+            | some k =>
+              have hk := (hb.fwd_iff n k).1 hf
+              have : x ≠ k := by
+                intro hxk; subst hxk
+                rw [hx] at hk; exact hn (Option.some.inj hk)
+              simp [this]
+        · intro hnd
+          simp only [List.map_cons, List.nodup_cons] at hnd ⊢
+          refine ⟨?_, h3 hnd.2⟩
+          intro hmem
+          have hs : (dget t nx).isSome := (dget_isSome_iff_mem t nx).2 hmem
+          rw [h2 nx, (hb.fwd_iff nx x).2 hx] at hs
+          exact hnd.1 ((dget_isSome_iff_mem rest x).1 hs)
+        · intro k hk
+          rcases List.mem_cons.1 hk with rfl | hk
+          · exact ⟨nx, hx⟩
+          · exact h4 k hk
+
+theorem renameE_total {inv : KMap} {d : Dict} (h : ∀ k ∈ d.map (·.1), ∃ n, dget inv k = some n) :
+    ∃ d', renameE inv d = .ok d' := by
+  induction d with
+  | nil => exact ⟨[], rfl⟩
+  | cons p rest ih =>
+    obtain ⟨n, hn⟩ := h p.1 (by simp)
+    obtain ⟨t, ht⟩ := ih (fun k hk => h k (by simp [hk]))
+    simp only [renameE] at ht
+    exact ⟨(n, p.2) :: t, by simp [renameE, mapMRes, renameEntry, hn, ht]⟩
+
+theorem renameKeys_spec {inv : KMap} (hb : Bij inv) {ks ks' : List Key} (h : mapMRes (renameKey inv) ks = .ok ks') :
+    (∀ n, n ∈ ks' ↔ ∃ k, k ∈ ks ∧ dget inv k = some n) ∧ (ks.Nodup → ks'.Nodup) := by
+  induction ks generalizing ks' with
+  | nil => simp [mapMRes] at h; subst h; simp
+  | cons x rest ih =>
+    simp only [mapMRes, renameKey] at h
+    cases hx : dget inv x with
+    | none => simp [hx] at h
+    | some nx =>
+      simp only [hx] at h
+      cases hr : mapMRes (renameKey inv) rest with
+      | error er => simp [hr] at h
+      | ok t =>
+        simp [hr] at h; subst h
+        obtain ⟨h1, h2⟩ := ih hr
+        refine ⟨?_, ?_⟩
+        · intro n
+          simp only [List.mem_cons, h1 n]
+          constructor
+          · rintro (rfl | ⟨k, hk, hkn⟩)
+            · exact ⟨x, Or.inl rfl, hx⟩
+            · exact ⟨k, Or.inr hk, hkn⟩
+          · rintro ⟨k, (rfl | hk), hkn⟩
+            · rw [hx] at hkn; exact Or.inl (Option.some.inj hkn).symm
+            · exact Or.inr ⟨k, hk, hkn⟩
+        · intro hnd
+          simp only [List.nodup_cons] at hnd ⊢
+          refine ⟨?_, h2 hnd.2⟩
+          intro hmem
+          obtain ⟨k, hk, hkn⟩ := (h1 nx).1 hmem
+          have := hb.inj hkn hx
+          subst this
+          exact hnd.1 hk
+
+theorem renameKeys_total {inv : KMap} {ks : List Key} (h : ∀ k ∈ ks, ∃ n, dget inv k = some n) :
+    ∃ ks', mapMRes (renameKey inv) ks = .ok ks' := by
+  induction ks with
+  | nil => exact ⟨[], rfl⟩
+  | cons x rest ih =>
+    obtain ⟨n, hn⟩ := h x (by simp)
+    obtain ⟨t, ht⟩ := ih (fun k hk => h k (by simp [hk]))
+    exact ⟨n :: t, by simp [mapMRes, renameKey, hn, ht]⟩
+
+
+theorem swapList_swapList (m : KMap) : swapList (swapList m) = m := by
+  simp [swapList, Function.comp_def]
+
+
+/-- HeadSparse over a row; `hfree`: the header map does not name a hidden raw key of the row below -/
+theorem refS_head {r : SRow} {e : EagerS} (h : RefS r e) (hw : WFS e) (inv : KMap) (hb : Bij inv) (d' : Dict)
+    (hd : renameE inv e.d = .ok d') (lab) (hfree : ∀ p ∈ inv, p.1 ∉ r.leak) :
+    RefS (.head r (swapList inv) (swapMap (swapList inv))) ⟨d', lab, e.miss, inv⟩ ∧ (d'.map (·.1)).Nodup := by
+  obtain ⟨ks, hks, hknd, hkm⟩ := h.keys
+  have hinv : swapMap (swapList inv) = inv := by
+    rw [swapMap_eq _ (by simpa [swapList, Function.comp_def] using hb.keys), swapList_swapList]
+  obtain ⟨hlen, hdg, hdn, hdom⟩ := renameE_spec hb hd
+  have hdn' := hdn hw.nodup
+  have hdom_ks : ∀ k ∈ ks, ∃ n, dget inv k = some n :=
+    fun k hk => hdom k ((dget_isSome_iff_mem e.d k).1 ((hkm k).1 hk))
+  obtain ⟨ks', hks'⟩ := renameKeys_total hdom_ks
+  obtain ⟨hmem, hknd'⟩ := renameKeys_spec hb hks'
+  have hkeys : ∀ n, n ∈ ks' ↔ (dget d' n).isSome := by
+    intro n
+    rw [hmem n, hdg n]
+    constructor
+    · rintro ⟨k, hk, hkn⟩
+      rw [(hb.fwd_iff n k).2 hkn]
+      exact (hkm k).1 hk
+    · intro hs
+      cases hf : dget (swapList inv) n with
+      | none => simp [hf] at hs
+      | some k =>
+        simp only [hf] at hs
+        exact ⟨k, (hkm k).2 hs, (hb.fwd_iff n k).1 hf⟩
+  refine ⟨⟨?_, ?_, ⟨ks', ?_, hknd' hknd, hkeys⟩, ?_, h.miss, hinv, ?_, ?_, ?_⟩, hdn'⟩
+  · intro n _
+    simp only [SRow.get, hdg n]
+    cases hf : dget (swapList inv) n with
+    | none => rfl
+    | some k =>
+      have hk : k ∉ r.leak := hfree (k, n) (dget_some_mem ((hb.fwd_iff n k).1 hf))
+      simp only [h.get k hk]
+  · simp only [SRow.items, h.items, hinv]
+    simpa [renameE] using hd
+  · simp only [SRow.keys, hks, hinv, hks']
+  · simp only [SRow.len, h.len, hlen]
+  · intro k hk; simp [SRow.leak] at hk
+  · intro k hk; simp [SRow.leak] at hk
+  · intro k _ hne; simp [SRow.leak] at hne
+
+
+theorem kdiff_nil (a : List Key) : kdiff [] a = [] := rfl
+
+theorem kunion_nil (a : List Key) : kunion a [] = a := by simp [kunion, kdiff_nil]
+
+theorem distinct_iff {α} [DecidableEq α] (l : List α) : distinct l = true ↔ l.Nodup := by simp [distinct]
+
+theorem mapMRes_append {α β} (f : α → Res β) (a b : List α) :
+    mapMRes f (a ++ b) = match mapMRes f a with
+      | .error e => .error e
+      | .ok xs => match mapMRes f b with | .error e => .error e | .ok ys => .ok (xs ++ ys) := by
+  induction a with
+  | nil => simp [mapMRes]; cases mapMRes f b <;> rfl
+  | cons x t ih =>
+    simp only [List.cons_append, mapMRes, ih]
+    cases f x with
+    | error e => rfl
+    | ok y =>
+      cases mapMRes f t with
+      | error e => rfl
+      | ok xs => cases mapMRes f b <;> rfl
+
+theorem applyEntry_zero (g : Key → Val → Res Val) (ks : List Key) :
+    mapMRes (applyEntry g) (ks.map (fun k => (k, Val.str "0"))) = mapMRes (zeroEntry g) ks := by
+  induction ks with
+  | nil => rfl
+  | cons k t ih => simp only [List.map_cons, mapMRes, applyEntry, zeroEntry, ih]
+
+theorem map_id_keys (its : Dict) :
+    its.map (fun p => ((if ([] : KMap).isEmpty = true then p.1 else (dget ([] : KMap) p.1).getD p.1), p.2)) = its := by
+  induction its with
+  | nil => rfl
+  | cons p t _ => simp
+
+/-- what a LazySparse loads, as a finite map and as a key list -/
+theorem lazyDictE_spec {enc : List (Key × Enc)} {nsp : List Key} {raw d1 : Dict}
+    (hn : (raw.map (·.1)).Nodup) (hnsp : enc.isEmpty = true → nsp = []) (h : lazyDictE enc nsp raw = .ok d1) :
+    (d1.map (·.1)).Nodup ∧ d1.map (·.1) = kunion (raw.map (·.1)) nsp ∧
+    (∀ k, optRes (dget d1 k) = lazyValue enc raw nsp k) ∧
+    (if enc.isEmpty then d1 = raw
+     else mapMRes (applyEntry (fun k v => lazyApply (encOf enc k) v)) (raw ++ (kdiff nsp (raw.map (·.1))).map (fun k => (k, Val.str "0"))) = .ok d1) := by
+  simp only [lazyDictE] at h
+  by_cases hem : enc.isEmpty = true
+  · have hn0 := hnsp hem
+    subst hn0
+    simp only [hem, if_true] at h
+    simp at h; subst h
+    refine ⟨hn, by simp [kunion_nil], ?_, by simp [hem]⟩
+    intro k
+    simp only [lazyValue, hem, if_true]
+    cases dget raw k <;> simp [optRes]
+  · have hem' : enc.isEmpty = false := by simpa using hem
+    simp only [hem', Bool.false_eq_true, if_false] at h
+    obtain ⟨hdn, hdg, hsucc, hzero, t1, t2, ht1, ht2, hdd⟩ := encodeDictN_spec hn h
+    obtain ⟨a1, _, _⟩ := applyEntry_spec ht1
+    obtain ⟨b1, _, _⟩ := zeroEntry_spec ht2
+    refine ⟨hdn, by rw [hdd]; simp [a1, b1, kunion], ?_, ?_⟩
+    · intro k
+      simp only [lazyValue, hem', Bool.false_eq_true, if_false, hdg k]
+      cases hdk : dget raw k with
+      | some v =>
+        obtain ⟨v', hv'⟩ := hsucc (k, v) (dget_some_mem hdk)
+        simp only at hv'
+        simp [optRes, hv', Except.toOption]
+      | none =>
+        by_cases hm : k ∈ nsp
+        · obtain ⟨v0, hv0⟩ := hzero k hm hdk
+          simp [optRes, hm, hv0, Except.toOption]
+        · simp [optRes, hm]
+    · simp only [hem', Bool.false_eq_true, if_false]
+      rw [mapMRes_append, ht1, applyEntry_zero, ht2, hdd]
+
+/-- LazySparse without a header map (any encoders, any "not sparse" set) -/
+theorem refS_lazy_nohdr (c : Cell Dict) (raw : Dict) (enc : List (Key × Enc)) (nsp : List Key) (miss : Bool) (d1 : Dict) (lab)
+    (hc : c.get = raw) (hn : (raw.map (·.1)).Nodup) (hnsp : enc.isEmpty = true → nsp = [])
+    (h1 : lazyDictE enc nsp raw = .ok d1) :
+    RefS (.lazy c enc nsp [] [] miss) ⟨d1, lab, some miss, []⟩ ∧ (d1.map (·.1)).Nodup := by
+  obtain ⟨hdn, hkeys, hget, hitems⟩ := lazyDictE_spec hn hnsp h1
+  have hkm : ∀ k, k ∈ kunion (raw.map (·.1)) nsp ↔ (dget d1 k).isSome := by
+    intro k; rw [← hkeys, dget_isSome_iff_mem]
+  refine ⟨⟨?_, ?_, ⟨kunion (raw.map (·.1)) nsp, by simp [SRow.keys, hc], hkeys ▸ hdn, hkm⟩, ?_, rfl, rfl, ?_, ?_, ?_⟩, hdn⟩
+  · intro k _
+    simp only [SRow.get, hc, dget, Option.getD]
+    rw [hget k]
+  · simp only [SRow.items, hc]
+    by_cases hem : enc.isEmpty = true
+    · simp only [hem, if_true] at hitems ⊢
+      simp [hitems]
+    · have hem' : enc.isEmpty = false := by simpa using hem
+      simp only [hem', Bool.false_eq_true, if_false] at hitems ⊢
+      simp only [hitems, map_id_keys]
+  · simp only [SRow.len, hc, ← hkeys, List.length_map]
+  · intro k hk; simp [SRow.leak] at hk
+  · intro k hk; simp [SRow.leak] at hk
+  · intro k hk; simp [dget] at hk
+
+
+theorem rename_getD {inv : KMap} {d d' : Dict} (h : renameE inv d = .ok d') :
+    d.map (fun p => ((dget inv p.1).getD p.1, p.2)) = d' := by
+  induction d generalizing d' with
+  | nil => simp [renameE, mapMRes] at h; subst h; rfl
+  | cons p rest ih =>
+    simp only [renameE, mapMRes, renameEntry] at h
+    cases hx : dget inv p.1 with
+    | none => simp [hx] at h
+    | some n =>
+      simp only [hx] at h
+      cases hr : mapMRes (renameEntry inv) rest with
+      | error er => simp [hr] at h
+      | ok t =>
+        simp [hr] at h; subst h
+        simp [hx, ih (d' := t) (by simpa [renameE] using hr)]
+
+/-- a header-mapped LazySparse row (LazySparse(row, enc, nsp, fwd, inv) as ArffReader builds it) -/
+theorem refS_lazy_hdr (c : Cell Dict) (raw : Dict) (enc : List (Key × Enc)) (nsp : List Key) (inv : KMap) (miss : Bool)
+    (d1 d2 : Dict) (lab)
+    (hc : c.get = raw) (hn : (raw.map (·.1)).Nodup) (hnsp : enc.isEmpty = true → nsp = [])
+    (h1 : lazyDictE enc nsp raw = .ok d1) (hb : Bij inv) (hne : inv.isEmpty = false)
+    (h2 : renameE inv d1 = .ok d2) (hshape : ∀ p ∈ inv, ∃ i n, p = (Key.pos i, Key.name n)) :
+    RefS (.lazy c enc nsp (swapList inv) inv miss) ⟨d2, lab, some miss, inv⟩ ∧ (d2.map (·.1)).Nodup := by
+  obtain ⟨hin, hdn1⟩ := refS_lazy_nohdr c raw enc nsp miss d1 none hc hn hnsp h1
+  have hw1 : WFS ⟨d1, none, some miss, []⟩ := ⟨hdn1, by simp⟩
+  obtain ⟨H, hdn2⟩ := refS_head hin hw1 inv hb d2 h2 lab (by intro p _; simp [SRow.leak])
+  obtain ⟨_, hkeys1, hget1, hitems1⟩ := lazyDictE_spec hn hnsp h1
+  obtain ⟨_, hdg2, _, hdom⟩ := renameE_spec hb h2
+  have hinv : swapMap (swapList inv) = inv := by
+    rw [swapMap_eq _ (by simpa [swapList, Function.comp_def] using hb.keys), swapList_swapList]
+  have hfne : (swapList inv).isEmpty = false := by
+    cases inv with
+    | nil => simp at hne
+    | cons p t => simp [swapList]
+  have hleak : (SRow.lazy c enc nsp (swapList inv) inv miss).leak = inv.map (·.1) := by simp [SRow.leak, hfne]
+  refine ⟨⟨?_, ?_, ?_, ?_, rfl, rfl, ?_, ?_, ?_⟩, hdn2⟩
+  · intro k hk
+    rw [hleak] at hk
+    have hH := H.get k (by simp [SRow.leak])
+    simp only [SRow.get] at hH ⊢
+    cases hf : dget (swapList inv) k with
+    | some k' =>
+      simp only [hf, dget, Option.getD, hc] at hH ⊢
+      exact hH
+    | none =>
+      simp only [hf, Option.getD] at hH ⊢
+      rw [hc, ← hget1 k, ← hH]
+      have : dget d1 k = none := by
+        rw [dget_none_iff_not_mem]
+        intro hm
+        obtain ⟨n, hn'⟩ := hdom k hm
+        exact hk (List.mem_map.2 ⟨(k, n), dget_some_mem hn', rfl⟩)
+      rw [this]; rfl
+  · simp only [SRow.items, hc]
+    by_cases hem : enc.isEmpty = true
+    · simp only [hem, if_true] at hitems1 ⊢
+      subst hitems1
+      simp only [hne, Bool.false_eq_true, if_false, rename_getD h2]
+    · have hem' : enc.isEmpty = false := by simpa using hem
+      simp only [hem', Bool.false_eq_true, if_false] at hitems1 ⊢
+      simp only [hitems1, hne, Bool.false_eq_true, if_false, rename_getD h2]
+  · have hk := H.keys
+    simp only [SRow.keys, hc, hinv, dget] at hk ⊢
+    simp only [hne, Bool.false_eq_true, if_false]
+    simpa using hk
+  · have hl := H.len
+    simp only [SRow.len, hc] at hl ⊢
+    exact hl
+  · intro k hk
+    rw [hleak] at hk
+    obtain ⟨p, hp, rfl⟩ := List.mem_map.1 hk
+    obtain ⟨i, n, rfl⟩ := hshape p hp
+    exact ⟨i, rfl⟩
+  · intro k hk
+    rw [hleak] at hk
+    obtain ⟨p, hp, rfl⟩ := List.mem_map.1 hk
+    obtain ⟨i, n, rfl⟩ := hshape p hp
+    exact ⟨n, dget_of_mem_nodup hb.keys hp⟩
+  · intro k hs _
+    rw [hleak]
+    exact (dget_isSome_iff_mem inv k).1 hs
+
+
+/-! ### EncodeCatRows on a dict keeps the keys distinct -/
+
+theorem nodup_dset {d : Dict} (k : Key) (v : Val) (h : (d.map (·.1)).Nodup) : ((dset d k v).map (·.1)).Nodup := by
+  induction d with
+  | nil => simp [dset]
+  | cons p t ih =>
+    obtain ⟨a, b⟩ := p
+    simp only [List.map_cons, List.nodup_cons] at h
+    simp only [dset]
+    split
+    · simpa [List.nodup_cons] using h
+    · rename_i hne
+      simp only [List.map_cons, List.nodup_cons]
+      refine ⟨?_, ih h.2⟩
+      intro hm
+      have : ∀ (t : Dict), a ∈ (dset t k v).map (·.1) → a ∈ t.map (·.1) ∨ a = k := by
+        intro t
+        induction t with
+        | nil => simp [dset]
+        | cons q u ihu =>
+          obtain ⟨x, y⟩ := q
+          simp only [dset]
+          split
+          · intro h'; exact Or.inl h'
+          · intro h'
+            simp only [List.map_cons, List.mem_cons] at h' ⊢
+            rcases h' with h' | h'
+            · exact Or.inl (Or.inl h')
+            · rcases ihu h' with h'' | h''
+              · exact Or.inl (Or.inr h'')
+              · exact Or.inr h''
+      rcases this t hm with h' | h'
+      · exact h.1 h'
+      · exact hne h'
+
+theorem nodup_ddel {d : Dict} (k : Key) (h : (d.map (·.1)).Nodup) : ((ddel d k).map (·.1)).Nodup := by
+  have : ((ddel d k).map (·.1)).Sublist (d.map (·.1)) := (List.filter_sublist).map _
+  exact this.nodup h
+
+theorem nodup_flatSet (d : Dict) (k : Key) (hs : List Int) (h : (d.map (·.1)).Nodup) : ((flatSet d k hs).map (·.1)).Nodup := by
+  simp only [flatSet]
+  generalize (hs.zipIdx.drop 1) = l
+  induction l generalizing d with
+  | nil => exact h
+  | cons p t ih => exact ih _ (nodup_dset _ _ h)
+
+theorem nodup_catEncodeDict (m : CatMode) (d : Dict) (h : (d.map (·.1)).Nodup) : ((catEncodeDict m d).map (·.1)).Nodup := by
+  simp only [catEncodeDict]
+  have : ∀ (l o : Dict), (o.map (·.1)).Nodup → ((l.foldl (fun o p =>
+      match p.2 with
+      | .cat s lv =>
+        match m with
+        | .string => dset o p.1 (Val.str s)
+        | .onehotTuple => dset o p.1 (Val.tup (onehotOf s lv))
+        | .onehot => flatSet (ddel o p.1) p.1 (onehotOf s lv)
+      | _ => o) o).map (·.1)).Nodup := by
+    intro l
+    induction l with
+    | nil => intro o ho; exact ho
+    | cons p t ih =>
+      intro o ho
+      simp only [List.foldl_cons]
+      apply ih
+      split
+      · cases m
+        · exact nodup_flatSet _ _ _ (nodup_ddel _ ho)
+        · exact nodup_dset _ _ ho
+        · exact nodup_dset _ _ ho
+      · exact ho
+  exact this d d h
+
+/-! ### stages over rows with hidden raw keys -/
+
+def predSafe (pred : Option Pred) (r : SRow) : Prop :=
+  match pred with
+  | some (.cellEq k _) => k ∉ r.leak
+  | _ => True
+
+theorem evalPredS_of_eager {r : SRow} {e : EagerS} (h : RefS r e) (pred : Option Pred) (b : Bool)
+    (hp : evalPredE pred e.miss (dget e.d) = .ok b)
+    (hfree : predSafe pred r) : evalPredS pred r = .ok b := by
+  cases pred with
+  | none => simpa [evalPredE, evalPredS] using hp
+  | some p =>
+    cases p with
+    | missing =>
+      simp only [evalPredE] at hp
+      cases hm : e.miss with
+      | none => simp [hm] at hp
+      | some m =>
+        simp only [hm] at hp
+        have := h.miss; rw [hm] at this
+        simp only [evalPredS, toOption_eq_some this]; exact hp
+    | cellEq k v =>
+      simp only [evalPredE] at hp
+      cases hg : dget e.d k with
+      | none => simp [hg] at hp
+      | some x =>
+        simp only [hg] at hp
+        have hgk := h.get k hfree
+        simp only [evalPredS, hgk, hg, optRes]; exact hp
+
+
+theorem bij_of_distinct {inv : KMap} (h : (distinct (inv.map (·.1)) && distinct (inv.map (·.2))) = true) : Bij inv := by
+  simp only [Bool.and_eq_true, distinct_iff] at h
+  exact ⟨h.1, h.2⟩
+
+theorem eagerHeadS_ne_none (inv : KMap) (e : EagerS) : eagerHeadS inv e ≠ .ok none := by
+  simp only [eagerHeadS]
+  split
+  · split
+    · simp
+    · split <;> simp
+  · simp
+
+theorem nodup_zipIdx_pos {α} (es : List α) (k : Nat) : ((es.zipIdx k).map (fun p => Key.pos p.2)).Nodup := by
+  induction es generalizing k with
+  | nil => simp
+  | cons x t ih =>
+    simp only [List.zipIdx_cons, List.map_cons, List.nodup_cons]
+    refine ⟨?_, ih (k + 1)⟩
+    intro hm
+    simp only [List.mem_map] at hm
+    obtain ⟨p, hp, hpe⟩ := hm
+    have := List.mem_zipIdx hp
+    simp at hpe
+    omega
+
+/-- one stage on a sparse row (EncodeCatRows is not covered: see notes) -/
+
+theorem not_leak_of_name {r : SRow} {e : EagerS} (h : RefS r e) {k : Key} (hk : isName k = true) : k ∉ r.leak := by
+  intro hm
+  obtain ⟨i, rfl⟩ := h.leakPos k hm
+  simp [isName] at hk
+
+theorem labelKey_not_leak {r : SRow} {e : EagerS} (h : RefS r e) (k : Key) : labelKey e.inv k ∉ r.leak := by
+  cases k with
+  | name s => exact not_leak_of_name h rfl
+  | pos i =>
+    simp only [labelKey]
+    by_cases hl : Key.pos i ∈ r.leak
+    · obtain ⟨n, hn⟩ := h.leakInv _ hl
+      simp only [hn, Option.getD]
+      exact not_leak_of_name h rfl
+    · cases hd : dget e.inv (.pos i) with
+      | none => simpa [Option.getD] using hl
+      | some x =>
+        by_cases hne : r.leak = []
+        · simp [hne]
+        · exact absurd (h.leakAll _ (by simp [hd]) hne) hl
+
+
+/-- the header maps LazySparse gets from a list of column names -/
+def invOfNames (ns : List String) : KMap := ns.zipIdx.map (fun p => (Key.pos p.2, Key.name p.1))
+def fwdOfNames (ns : List String) : KMap := ns.zipIdx.map (fun p => (Key.name p.1, Key.pos p.2))
+
+theorem fwd_swap (ns : List String) : fwdOfNames ns = swapList (invOfNames ns) := by
+  simp [fwdOfNames, invOfNames, swapList, Function.comp_def]
+
+theorem nodup_zipIdx_name (ns : List String) (k : Nat) (h : ns.Nodup) : ((ns.zipIdx k).map (fun p => Key.name p.1)).Nodup := by
+  induction ns generalizing k with
+  | nil => simp
+  | cons x t ih =>
+    rw [List.nodup_cons] at h
+    simp only [List.zipIdx_cons, List.map_cons, List.nodup_cons]
+    refine ⟨?_, ih (k + 1) h.2⟩
+    intro hm
+    simp only [List.mem_map] at hm
+    obtain ⟨p, hp, hpe⟩ := hm
+    have h1 : p.1 ∈ t := by
+      have := List.mem_zipIdx hp
+      obtain ⟨_, _, hx⟩ := this
+      rw [hx]; exact List.getElem_mem _
+    simp at hpe
+    exact h.1 (hpe ▸ h1)
+
+theorem bij_invOfNames (ns : List String) (h : ns.Nodup) : Bij (invOfNames ns) := by
+  constructor
+  · simpa [invOfNames, Function.comp_def] using nodup_zipIdx_pos ns 0
+  · simpa [invOfNames, Function.comp_def] using nodup_zipIdx_name ns 0 h
+
+theorem shape_invOfNames (ns : List String) : ∀ p ∈ invOfNames ns, ∃ i n, p = (Key.pos i, Key.name n) := by
+  intro p hp
+  simp only [invOfNames, List.mem_map] at hp
+  obtain ⟨q, _, rfl⟩ := hp
+  exact ⟨q.2, q.1, rfl⟩
+
+theorem renameE_nil {d d' : Dict} (h : renameE [] d = .ok d') : d = [] ∧ d' = [] := by
+  cases d with
+  | nil => simp [renameE, mapMRes] at h; exact ⟨rfl, h⟩
+  | cons p t => simp [renameE, mapMRes, renameEntry, dget] at h
+
+/-- LazySparse as built from raw dict, encoders, "not sparse" set and (possibly no) column names -/
+theorem refS_lazy_names (c : Cell Dict) (raw : Dict) (enc : List (Key × Enc)) (nsp : List Key) (ns : List String) (miss : Bool)
+    (d1 d2 : Dict) (hc : c.get = raw) (hn : (raw.map (·.1)).Nodup) (hnsp : enc.isEmpty = true → nsp = [])
+    (h1 : lazyDictE enc nsp raw = .ok d1) (hns : ns.Nodup) (h2 : renameE (invOfNames ns) d1 = .ok d2) :
+    RefS (.lazy c enc nsp (fwdOfNames ns) (invOfNames ns) miss) ⟨d2, none, some miss, invOfNames ns⟩ ∧ (d2.map (·.1)).Nodup := by
+  cases ns with
+  | nil =>
+    have hi : invOfNames [] = [] := rfl
+    have hf : fwdOfNames [] = [] := rfl
+    rw [hi] at h2 ⊢
+    rw [hf]
+    obtain ⟨rfl, rfl⟩ := renameE_nil h2
+    exact refS_lazy_nohdr c raw enc nsp miss [] none hc hn hnsp h1
+  | cons x t =>
+    rw [fwd_swap]
+    exact refS_lazy_hdr c raw enc nsp (invOfNames (x :: t)) miss d1 d2 none hc hn hnsp h1 (bij_invOfNames _ hns)
+      (by simp [invOfNames]) h2 (shape_invOfNames _)
+
+theorem zipIdx_map_name (cols : List Col) (k : Nat) :
+    (cols.zipIdx k).map (fun p => (Key.pos p.2, Key.name p.1.name)) = ((cols.map (·.name)).zipIdx k).map (fun p => (Key.pos p.2, Key.name p.1)) := by
+  induction cols generalizing k with
+  | nil => rfl
+  | cons c t ih => simp [List.zipIdx_cons, ih (k + 1)]
+
+theorem zipIdx_map_name' (cols : List Col) (k : Nat) :
+    (cols.zipIdx k).map (fun p => (Key.name p.1.name, Key.pos p.2)) = ((cols.map (·.name)).zipIdx k).map (fun p => (Key.name p.1, Key.pos p.2)) := by
+  induction cols generalizing k with
+  | nil => rfl
+  | cons c t ih => simp [List.zipIdx_cons, ih (k + 1)]
+
+theorem nspOf_nil_of_empty (enc : List (Key × Enc)) (h : enc.isEmpty = true) : nspOf enc = [] := by
+  cases enc with
+  | nil => rfl
+  | cons p t => simp at h
+
+/-- every sparse base row: dict, LazySparse (with or without loader / encoders / header map), ArffReader's rows -/
+theorem baseS_refines (b : SBase) (e : EagerS) (hb : eagerBaseS b = .ok e) : RefS (baseS b) e ∧ WFS e := by
+  cases b with
+  | plain d =>
+    simp only [eagerBaseS] at hb
+    split at hb
+    · rename_i hok
+      simp at hb; subst hb
+      have hn := (distinct_iff _).1 hok
+      exact ⟨refS_plain d hn none, ⟨hn, by simp⟩⟩
+    · simp at hb
+  | lazy d loader enc hdr miss =>
+    simp only [eagerBaseS] at hb
+    split at hb
+    · rename_i hok
+      simp only [Bool.and_eq_true, distinct_iff] at hok
+      cases h1 : lazyDictE enc [] d with
+      | error er => simp [h1] at hb
+      | ok d1 =>
+        simp only [h1] at hb
+        cases hdr with
+        | none =>
+          simp at hb; subst hb
+          obtain ⟨href, hdn⟩ := refS_lazy_nohdr (mkCell loader d) d enc [] miss d1 none (mkCell_get _ _) hok.1 (fun _ => rfl) h1
+          exact ⟨href, ⟨hdn, by simp⟩⟩
+        | some ns =>
+          simp only at hb
+          split at hb
+          · rename_i hns
+            cases h2 : renameE (ns.zipIdx.map (fun p => (Key.pos p.2, Key.name p.1))) d1 with
+            | error er => simp [h2] at hb
+            | ok d2 =>
+              simp [h2] at hb; subst hb
+              obtain ⟨href, hdn⟩ := refS_lazy_names (mkCell loader d) d enc [] ns miss d1 d2 (mkCell_get _ _) hok.1 (fun _ => rfl) h1
+                ((distinct_iff _).1 hns) h2
+              exact ⟨href, ⟨hdn, by simp⟩⟩
+          · simp at hb
+    · simp at hb
+  | arff cols raw miss =>
+    simp only [eagerBaseS] at hb
+    split at hb
+    · rename_i hok
+      simp only [Bool.and_eq_true, distinct_iff] at hok
+      cases h1 : lazyDictE (cols.zipIdx.map (fun p => (Key.pos p.2, Col.enc true p.1))) (nspOf (cols.zipIdx.map (fun p => (Key.pos p.2, Col.enc true p.1)))) raw with
+      | error er => simp [h1] at hb
+      | ok d1 =>
+        simp only [h1] at hb
+        rw [zipIdx_map_name] at hb
+        cases h2 : renameE (((cols.map (·.name)).zipIdx).map (fun p => (Key.pos p.2, Key.name p.1))) d1 with
+        | error er => simp [h2] at hb
+        | ok d2 =>
+          simp [h2] at hb; subst hb
+          obtain ⟨href, hdn⟩ := refS_lazy_names (.pending raw) raw _ _ (cols.map (fun (c : Col) => c.name)) miss d1 d2 rfl hok.1 (nspOf_nil_of_empty _) h1 hok.2 h2
+          refine ⟨?_, ⟨hdn, by simp⟩⟩
+          simp only [baseS, zipIdx_map_name, zipIdx_map_name']
+          exact href
+    · simp at hb
+
+
+/-- what `leakSafe` demands of one stage, in terms of the row it is applied to -/
+def stageSafe (st : Stage) (r : SRow) : Prop :=
+  match st with
+  | .headNames ns => ∀ q ∈ ns.zipIdx, Key.pos q.2 ∉ r.leak
+  | .headMap m => ∀ q ∈ m, q.2 ∉ r.leak
+  | .drop _ pred => predSafe pred r
+  | _ => True
+
+theorem headS_refines {r : SRow} {e : EagerS} (h : RefS r e) (hw : WFS e) (inv : KMap) (e' : EagerS)
+    (he : eagerHeadS inv e = .ok (some e')) (hfree : ∀ p ∈ inv, p.1 ∉ r.leak) :
+    RefS (.head r (swapList inv) (swapMap (swapList inv))) e' ∧ WFS e' := by
+  simp only [eagerHeadS] at he
+  split at he
+  · rename_i hok
+    have hb := bij_of_distinct hok
+    cases hd : renameE inv e.d with
+    | error er => simp [hd] at he
+    | ok d' =>
+      simp only [hd] at he
+      split at he
+      · simp at he
+      · rename_i lab hlab
+        simp at he; subst he
+        obtain ⟨href, hdn⟩ := refS_head h hw inv hb d' hd lab hfree
+        refine ⟨href, ⟨hdn, ?_⟩⟩
+        intro k t hl
+        subst hl
+        obtain ⟨_, hdg, _, _⟩ := renameE_spec hb hd
+        cases hel : e.lab with
+        | none => simp [hel] at hlab
+        | some kt =>
+          obtain ⟨k0, t0⟩ := kt
+          simp only [hel] at hlab
+          cases hi : dget inv k0 with
+          | none => simp [hi] at hlab
+          | some n =>
+            simp [hi] at hlab
+            obtain ⟨rfl, rfl⟩ := hlab
+            rw [hdg, (hb.fwd_iff _ k0).2 hi]
+            exact hw.lab k0 _ hel
+  · simp at he
+
+/-- one stage on a sparse row: if the eager stage is defined, the lazy stage builds a row that refines its result -/
+theorem stageS_refines (st : Stage) {r : SRow} {e : EagerS} (h : RefS r e) (hw : WFS e) (hsafe : stageSafe st r) :
+    (∀ e', eagerStageS st e = .ok (some e') → ∃ r', applyS st r = .ok (some r') ∧ RefS r' e' ∧ WFS e') ∧
+    (eagerStageS st e = .ok none → applyS st r = .ok none) := by
+  cases st with
+  | headNames ns =>
+    simp only [eagerStageS, applyS]
+    refine ⟨?_, fun he => absurd he (eagerHeadS_ne_none _ _)⟩
+    intro e' he
+    have := headS_refines h hw _ e' he (by
+      intro p hp
+      simp only [List.mem_map] at hp
+      obtain ⟨q, hq, rfl⟩ := hp
+      exact hsafe q hq)
+    have hsw : swapList (ns.zipIdx.map (fun p => (Key.pos p.2, Key.name p.1))) = ns.zipIdx.map (fun p => (Key.name p.1, Key.pos p.2)) := by
+      simp [swapList, Function.comp_def]
+    rw [hsw] at this
+    exact ⟨_, rfl, this.1, this.2⟩
+  | headMap m =>
+    simp only [eagerStageS, applyS]
+    refine ⟨?_, fun he => absurd he (eagerHeadS_ne_none _ _)⟩
+    intro e' he
+    have := headS_refines h hw _ e' he (by
+      intro p hp
+      simp only [List.mem_map] at hp
+      obtain ⟨q, hq, rfl⟩ := hp
+      exact hsafe q hq)
+    have hsw : swapList (m.map (fun p => (p.2, Key.name p.1))) = m.map (fun p => (Key.name p.1, p.2)) := by
+      simp [swapList, Function.comp_def]
+    rw [hsw] at this
+    exact ⟨_, rfl, this.1, this.2⟩
+  | encodeSeq es =>
+    simp only [eagerStageS, applyS]
+    refine ⟨?_, by intro he; split at he <;> simp at he⟩
+    intro e' he
+    cases hd : encodeDictE (es.zipIdx.map (fun p => (Key.pos p.2, p.1))) Enc.apply e.d with
+    | error er => simp [hd] at he
+    | ok d' =>
+      simp [hd] at he; subst he
+      obtain ⟨href, hdn⟩ := refS_encode h hw _ d' hd
+      refine ⟨_, rfl, href, ⟨hdn, ?_⟩⟩
+      intro k t hl
+      obtain ⟨_, hdg, hsucc, _⟩ := encodeDictN_spec hw.nodup hd
+      have hs := hw.lab k t hl
+      rw [hdg k]
+      cases hdk : dget e.d k with
+      | none => simp [hdk] at hs
+      | some v =>
+        obtain ⟨v', hv'⟩ := hsucc (k, v) (dget_some_mem hdk)
+        simp only at hv'
+        simp [hv', Except.toOption]
+  | encodeMap m =>
+    simp only [eagerStageS, applyS]
+    refine ⟨?_, by intro he; split at he <;> (try split at he) <;> simp at he⟩
+    intro e' he
+    split at he
+    · cases hd : encodeDictE m Enc.apply e.d with
+      | error er => simp [hd] at he
+      | ok d' =>
+        simp [hd] at he; subst he
+        obtain ⟨href, hdn⟩ := refS_encode h hw _ d' hd
+        refine ⟨_, rfl, href, ⟨hdn, ?_⟩⟩
+        intro k t hl
+        obtain ⟨_, hdg, hsucc, _⟩ := encodeDictN_spec hw.nodup hd
+        have hs := hw.lab k t hl
+        rw [hdg k]
+        cases hdk : dget e.d k with
+        | none => simp [hdk] at hs
+        | some v =>
+          obtain ⟨v', hv'⟩ := hsucc (k, v) (dget_some_mem hdk)
+          simp only at hv'
+          simp [hv', Except.toOption]
+    · simp at he
+  | drop cols pred =>
+    simp only [eagerStageS, applyS]
+    cases hp : evalPredE pred e.miss (dget e.d) with
+    | error er => simp
+    | ok b =>
+      rw [evalPredS_of_eager h pred b hp hsafe]
+      cases b with
+      | false => simp
+      | true =>
+        simp only
+        by_cases hc : cols.isEmpty = true
+        · simp only [hc, if_true]
+          exact ⟨by intro e' he; simp at he; subst he; exact ⟨r, rfl, h, hw⟩, by simp⟩
+        · have hc' : cols.isEmpty = false := by simpa using hc
+          simp only [hc', Bool.false_eq_true, if_false]
+          refine ⟨?_, by intro he; split at he <;> (try split at he) <;> simp at he⟩
+          intro e' he
+          have hwf : ∀ lab : Option (Key × Option String), (∀ k t, lab = some (k, t) → e.lab = some (k, t) ∧ cols.contains k = false) →
+              WFS ⟨e.d.filter (fun p => !cols.contains p.1), lab, e.miss, e.inv⟩ := by
+            intro lab hl
+            refine ⟨nodup_filter_keys (fun k => !cols.contains k) hw.nodup, ?_⟩
+            intro k t hlk
+            obtain ⟨h1, h2⟩ := hl k t hlk
+            rw [dget_filter_key e.d (fun k => !cols.contains k) k]
+            simp only [h2, Bool.not_false, if_true]
+            exact hw.lab k t h1
+          split at he
+          · rename_i k t hel
+            split at he
+            · simp at he
+            · rename_i hck
+              simp only [Except.ok.injEq, Option.some.injEq] at he; subst he
+              refine ⟨_, rfl, refS_drop h hw cols _, hwf _ ?_⟩
+              intro k' t' hl
+              injection hl with hl; injection hl with hk ht; subst hk; subst ht
+              exact ⟨hel, by simpa using hck⟩
+          · simp only [Except.ok.injEq, Option.some.injEq] at he; subst he
+            exact ⟨_, rfl, refS_drop h hw cols _, hwf _ (by intro k t hl; cases hl)⟩
+  | label k t =>
+    simp only [eagerStageS, applyS]
+    refine ⟨?_, by simp⟩
+    intro e' he
+    simp at he; subst he
+    rw [h.inv]
+    refine ⟨_, rfl, refS_label h hw (labelKey e.inv k) t _, ⟨nodup_labelDict (labelKey e.inv k) hw.nodup, ?_⟩⟩
+    intro k' t' hl
+    injection hl with hl; injection hl with hk ht; subst hk
+    have := dget_labelDict e.d (labelKey e.inv k) (labelKey e.inv k)
+    simp only [labelDict] at this
+    rw [this]
+    cases dget e.d (labelKey e.inv k) <;> simp
+  | enccat t =>
+    cases t with
+    | none =>
+      simp only [eagerStageS, applyS]
+      exact ⟨by intro e' he; simp at he; subst he; exact ⟨r, rfl, h, hw⟩, by simp⟩
+    | some m =>
+      simp only [eagerStageS, applyS, h.items, toDict_of_nodup e.d hw.nodup]
+      refine ⟨?_, by split <;> simp⟩
+      intro e' he
+      split at he
+      · rename_i hcat
+        simp at he; subst he
+        have hn := nodup_catEncodeDict m e.d hw.nodup
+        exact ⟨_, by simp [hcat], refS_plain _ hn none, ⟨hn, by simp⟩⟩
+      · rename_i hcat
+        simp at he; subst he
+        exact ⟨r, by simp [hcat], h, hw⟩
+
+
+theorem leakSafe_mono (stages : List Stage) (h : leakSafe true stages = true) : leakSafe false stages = true := by
+  induction stages with
+  | nil => rfl
+  | cons st rest ih =>
+    cases st with
+    | headNames ns => simp [leakSafe] at h
+    | headMap m => simp only [leakSafe, Bool.and_eq_true] at h ⊢; exact ⟨by simp, h.2⟩
+    | drop cols pred =>
+      cases pred with
+      | none => simp only [leakSafe] at h ⊢; exact ih h
+      | some p =>
+        cases p with
+        | missing => simp only [leakSafe] at h ⊢; exact ih h
+        | cellEq k v => simp only [leakSafe, Bool.and_eq_true] at h ⊢; exact ⟨by simp, ih h.2⟩
+    | encodeSeq es => simp only [leakSafe] at h ⊢; exact ih h
+    | encodeMap m => simp only [leakSafe] at h ⊢; exact ih h
+    | label k t => simp only [leakSafe] at h ⊢; exact ih h
+    | enccat t => simp only [leakSafe] at h ⊢; exact ih h
+
+/-- one step of the pipeline under `leakSafe`: the stage is safe for the row, and the rest is safe for the row it builds -/
+theorem leakSafe_step (st : Stage) (rest : List Stage) {r r1 : SRow} {e : EagerS} (h : RefS r e)
+    (happ : applyS st r = .ok (some r1)) (hs : leakSafe (!r.leak.isEmpty) (st :: rest) = true) :
+    stageSafe st r ∧ leakSafe (!r1.leak.isEmpty) rest = true := by
+  have hflag : ∀ l : List Key, (!l.isEmpty) = false → l = [] := by
+    intro l hl; cases l <;> simp_all
+  cases st with
+  | headNames ns =>
+    simp only [leakSafe, Bool.and_eq_true] at hs
+    simp only [applyS] at happ
+    simp at happ; subst happ
+    refine ⟨?_, by simpa [SRow.leak] using hs.2⟩
+    have : r.leak = [] := hflag _ (by simpa using hs.1)
+    intro q _; simp [this]
+  | headMap m =>
+    simp only [leakSafe, Bool.and_eq_true] at hs
+    simp only [applyS] at happ
+    simp at happ; subst happ
+    refine ⟨?_, by simpa [SRow.leak] using hs.2⟩
+    intro q hq
+    rcases (Bool.or_eq_true_iff.1 hs.1) with h1 | h1
+    · have : r.leak = [] := hflag _ (by simpa using h1)
+      simp [this]
+    · exact not_leak_of_name h (List.all_eq_true.1 h1 q hq)
+  | encodeSeq es =>
+    simp only [applyS] at happ; simp at happ; subst happ
+    exact ⟨trivial, by simpa [leakSafe, SRow.leak] using hs⟩
+  | encodeMap m =>
+    simp only [applyS] at happ; simp at happ; subst happ
+    exact ⟨trivial, by simpa [leakSafe, SRow.leak] using hs⟩
+  | label k t =>
+    simp only [applyS] at happ; simp at happ; subst happ
+    exact ⟨trivial, by simpa [leakSafe, SRow.leak] using hs⟩
+  | drop cols pred =>
+    have hleak : r1.leak = r.leak := by
+      simp only [applyS] at happ
+      cases hp : evalPredS pred r with
+      | error er => simp [hp] at happ
+      | ok b =>
+        cases b with
+        | false => simp [hp] at happ
+        | true =>
+          simp only [hp] at happ
+          split at happ <;> (simp at happ; subst happ; rfl)
+    rw [hleak]
+    cases pred with
+    | none => exact ⟨trivial, by simpa [leakSafe] using hs⟩
+    | some p =>
+      cases p with
+      | missing => exact ⟨trivial, by simpa [leakSafe] using hs⟩
+      | cellEq k v =>
+        simp only [leakSafe, Bool.and_eq_true] at hs
+        refine ⟨?_, hs.2⟩
+        simp only [stageSafe, predSafe]
+        rcases (Bool.or_eq_true_iff.1 hs.1) with h1 | h1
+        · have : r.leak = [] := hflag _ (by simpa using h1)
+          simp [this]
+        · exact not_leak_of_name h h1
+  | enccat t =>
+    simp only [leakSafe] at hs
+    refine ⟨trivial, ?_⟩
+    cases t with
+    | none => simp only [applyS] at happ; simp at happ; subst happ; exact hs
+    | some m =>
+      simp only [applyS] at happ
+      cases hi : r.items with
+      | error er => simp [hi] at happ
+      | ok its =>
+        simp only [hi] at happ
+        split at happ
+        · simp at happ; subst happ
+          cases hle : r.leak.isEmpty with
+          | true => simpa [SRow.leak, hle] using hs
+          | false => simp only [hle, Bool.not_false] at hs; simpa [SRow.leak] using leakSafe_mono _ hs
+        · simp at happ; subst happ; exact hs
+
+theorem buildS_refines (stages : List Stage) {r : SRow} {e : EagerS} (h : RefS r e) (hw : WFS e)
+    (hs : leakSafe (!r.leak.isEmpty) stages = true) :
+    (∀ e', eagerS stages e = .ok (some e') → ∃ r', buildS stages r = .ok (some r') ∧ RefS r' e' ∧ WFS e') ∧
+    (eagerS stages e = .ok none → buildS stages r = .ok none) := by
+  induction stages generalizing r e with
+  | nil =>
+    simp only [eagerS, buildS]
+    exact ⟨by intro e' he; simp at he; subst he; exact ⟨r, rfl, h, hw⟩, by simp⟩
+  | cons st rest ih =>
+    simp only [eagerS, buildS]
+    cases hse : eagerStageS st e with
+    | error er => simp
+    | ok o =>
+      -- the stage is safe: obtained from leakSafe once we know what the stage builds; the head/pred parts do not depend on it
+      have hsafe : stageSafe st r := by
+        cases st with
+        | headNames ns =>
+          exact (leakSafe_step (.headNames ns) rest h rfl hs).1
+        | headMap m => exact (leakSafe_step (.headMap m) rest h rfl hs).1
+        | encodeSeq es => trivial
+        | encodeMap m => trivial
+        | label k t => trivial
+        | enccat t => trivial
+        | drop cols pred =>
+          cases pred with
+          | none => trivial
+          | some p =>
+            cases p with
+            | missing => trivial
+            | cellEq k v =>
+              simp only [leakSafe, Bool.and_eq_true] at hs
+              simp only [stageSafe, predSafe]
+              rcases (Bool.or_eq_true_iff.1 hs.1) with h1 | h1
+              · have : r.leak = [] := by cases hl : r.leak <;> simp_all
+                simp [this]
+              · exact not_leak_of_name h h1
+      obtain ⟨h1, h2⟩ := stageS_refines st h hw hsafe
+      cases o with
+      | none => rw [h2 hse]; simp
+      | some e1 =>
+        obtain ⟨r1, hr1, href, hwf⟩ := h1 e1 hse
+        rw [hr1]
+        exact ih href hwf (leakSafe_step st rest h hr1 hs).2
+
+/-- the lazy pipeline refines the eager pipeline (sparse), for every base row -/
+theorem sparse_refines (b : SBase) (stages : List Stage) (hs : leakSafe (!(baseS b).leak.isEmpty) stages = true) (e0 : EagerS)
+    (he0 : eagerBaseS b = .ok e0) :
+    (∀ e, eagerS stages e0 = .ok (some e) → ∃ r, buildS stages (baseS b) = .ok (some r) ∧ RefS r e ∧ WFS e) ∧
+    (eagerS stages e0 = .ok none → buildS stages (baseS b) = .ok none) := by
+  obtain ⟨h, hw⟩ := baseS_refines b e0 he0
+  exact buildS_refines stages h hw hs
+
+theorem sparse_ref' (b : SBase) (stages : List Stage) (hs : leakSafe (!(baseS b).leak.isEmpty) stages = true) (e0 e : EagerS) (r : SRow)
+    (he0 : eagerBaseS b = .ok e0) (he : eagerS stages e0 = .ok (some e))
+    (hr : buildS stages (baseS b) = .ok (some r)) : RefS r e ∧ WFS e := by
+  obtain ⟨r', hr', href, hwf⟩ := (sparse_refines b stages hs e0 he0).1 e he
+  rw [hr] at hr'; cases hr'; exact ⟨href, hwf⟩
+
+
+/-! ### observations on sparse rows (key sets are compared as sets, dicts as finite maps) -/
+
+/-- two observations agree: key sets as sets, dicts as finite maps, everything else literally -/
+def Obs.agree : Obs → Obs → Prop
+  | .keys a, .keys b => a.Nodup ∧ ∀ k, k ∈ a ↔ k ∈ b
+  | .dict a, .dict b => (a.map (·.1)).Nodup ∧ ∀ k, dget a k = dget b k
+  | .val a, .val b => a = b
+  | .nat a, .nat b => a = b
+  | .bool a, .bool b => a = b
+  | .ostr a, .ostr b => a = b
+  | .err, .err => True
+  | _, _ => False
+
+
+theorem obsS_of_ref {r : SRow} {e : EagerS} (h : RefS r e) (hw : WFS e) (a : Acc)
+    (hna : match a with | .label => False | .tipe => False | .feats _ => False | .name k => k ∉ r.leak | _ => True)
+    (hdef : eagerObsS e a ≠ .undef) : (obsS r a).agree (eagerObsS e a) := by
+  obtain ⟨ks, hks, hknd, hkm⟩ := h.keys
+  cases a with
+  | pos i => simp [eagerObsS] at hdef
+  | name k =>
+    simp only [eagerObsS] at hdef
+    simp only [obsS, eagerObsS, h.get k hna]
+    cases hg : dget e.d k with
+    | none => simp [hg] at hdef
+    | some v => simp [optRes, ofRes, Obs.agree]
+  | iter =>
+    simp only [obsS, eagerObsS, hks, ofRes, Obs.agree]
+    exact ⟨hknd, fun k => by rw [hkm k, dget_isSome_iff_mem]⟩
+  | keys =>
+    simp only [obsS, eagerObsS, hks, ofRes, Obs.agree]
+    exact ⟨hknd, fun k => by rw [hkm k, dget_isSome_iff_mem]⟩
+  | items =>
+    simp only [obsS, eagerObsS, h.items, ofRes, Obs.agree]
+    exact ⟨hw.nodup, fun _ => trivial⟩
+  | copy =>
+    simp only [obsS, eagerObsS, h.items, ofRes, Obs.agree, toDict_of_nodup e.d hw.nodup]
+    exact ⟨hw.nodup, fun _ => trivial⟩
+  | len => simp [obsS, eagerObsS, h.len, ofRes, Obs.agree]
+  | headers => simp [eagerObsS] at hdef
+  | eq o =>
+    cases o with
+    | list l => simp [eagerObsS] at hdef
+    | dict d => simp [obsS, eagerObsS, SRow.eqDict, h.items, toDict_of_nodup e.d hw.nodup, Obs.agree]
+  | label => exact absurd hna id
+  | tipe => exact absurd hna id
+  | feats s => exact absurd hna id
+
+theorem eagerS_append (s1 s2 : List Stage) (e : EagerS) :
+    eagerS (s1 ++ s2) e = (match eagerS s1 e with
+      | .ok (some e1) => eagerS s2 e1
+      | .ok none => .ok none
+      | .error er => .error er) := by
+  induction s1 generalizing e with
+  | nil => simp [eagerS]
+  | cons st rest ih =>
+    simp only [List.cons_append, eagerS]
+    cases eagerStageS st e with
+    | error er => rfl
+    | ok o => cases o with
+      | none => rfl
+      | some e1 => exact ih e1
+
+theorem buildS_append (s1 s2 : List Stage) (r : SRow) :
+    buildS (s1 ++ s2) r = (match buildS s1 r with
+      | .ok (some r1) => buildS s2 r1
+      | .ok none => .ok none
+      | .error er => .error er) := by
+  induction s1 generalizing r with
+  | nil => simp [buildS]
+  | cons st rest ih =>
+    simp only [List.cons_append, buildS]
+    cases applyS st r with
+    | error er => rfl
+    | ok o => cases o with
+      | none => rfl
+      | some r1 => exact ih r1
+
+theorem feats_filter_eq (d : Dict) (k : Key) :
+    (labelDict d k).filter (fun p => decide (p.1 ≠ k)) = d.filter (fun p => !([k] : List Key).contains p.1) := by
+  have hc : ∀ p : Key × Val, decide (p.1 ≠ k) = !([k] : List Key).contains p.1 := by
+    intro p; by_cases h : p.1 = k <;> simp [h]
+  unfold labelDict
+  split
+  · exact List.filter_congr (fun p _ => hc p)
+  · rw [List.filter_append]
+    simp only [List.filter_cons, List.filter_nil]
+    simp
+
+/-- LabelRows as the last stage of a sparse pipeline -/
+theorem labelS_last {r0 : SRow} {e0 : EagerS} (h : RefS r0 e0) (hw : WFS e0) (k : Key) (t : Option String) (e : EagerS)
+    (he : eagerStageS (.label k t) e0 = .ok (some e)) :
+    ∃ r f ef v, applyS (.label k t) r0 = .ok (some r) ∧ RefS r e ∧
+      r.feats = .ok f ∧ e.feats = some ef ∧ RefS f ef ∧
+      r.labelVal = .ok v ∧ e.labelVal = some v ∧ r.tipe = .ok t ∧ e.lab.map (·.2) = some t := by
+  simp only [eagerStageS] at he
+  simp only [Except.ok.injEq, Option.some.injEq] at he
+  subst he
+  have hk : labelKey r0.invOf k = labelKey e0.inv k := by rw [h.inv]
+  have hnl : labelKey e0.inv k ∉ r0.leak := labelKey_not_leak h k
+  generalize labelKey e0.inv k = k' at hk hnl
+  have href := refS_label h hw k' t (some (k', t))
+  have hlv : ∃ v, dget (labelDict e0.d k') k' = some v := by
+    rw [dget_labelDict]
+    cases dget e0.d k' with
+    | some v => exact ⟨v, rfl⟩
+    | none => exact ⟨.int 0, by simp⟩
+  obtain ⟨v, hv⟩ := hlv
+  have hdrop := refS_drop h hw [k'] none
+  refine ⟨.label r0 k' t, .drop r0 [k'], _, v, by simp only [applyS, hk], ?_, rfl, rfl, ?_, ?_, ?_, rfl, rfl⟩
+  · exact href
+  · have := feats_filter_eq e0.d k'
+    simp only [labelDict] at this
+    rw [this]
+    exact hdrop
+  · simp only [SRow.labelVal, SRow.labelOf]
+    have := href.get k' hnl
+    simp only [labelDict] at this hv
+    rw [this, hv]; rfl
+  · simp only [EagerS.labelVal]
+    simpa [labelDict] using hv
+
+theorem leakSafe_append_label (b : Bool) (stages : List Stage) (k : Key) (t : Option String)
+    (h : leakSafe b (stages ++ [.label k t]) = true) : leakSafe b stages = true := by
+  induction stages generalizing b with
+  | nil => rfl
+  | cons st rest ih =>
+    cases st with
+    | headNames ns => simp only [List.cons_append, leakSafe, Bool.and_eq_true] at h ⊢; exact ⟨h.1, ih _ h.2⟩
+    | headMap m => simp only [List.cons_append, leakSafe, Bool.and_eq_true] at h ⊢; exact ⟨h.1, ih _ h.2⟩
+    | drop cols pred =>
+      cases pred with
+      | none => simp only [List.cons_append, leakSafe] at h ⊢; exact ih _ h
+      | some p =>
+        cases p with
+        | missing => simp only [List.cons_append, leakSafe] at h ⊢; exact ih _ h
+        | cellEq k v => simp only [List.cons_append, leakSafe, Bool.and_eq_true] at h ⊢; exact ⟨h.1, ih _ h.2⟩
+    | encodeSeq es => simp only [List.cons_append, leakSafe] at h ⊢; exact ih _ h
+    | encodeMap m => simp only [List.cons_append, leakSafe] at h ⊢; exact ih _ h
+    | label k t => simp only [List.cons_append, leakSafe] at h ⊢; exact ih _ h
+    | enccat t => simp only [List.cons_append, leakSafe] at h ⊢; exact ih _ h
+
+theorem feats_label_sparse' (b : SBase) (stages : List Stage) (k : Key) (t : Option String)
+    (hs : leakSafe (!(baseS b).leak.isEmpty) (stages ++ [.label k t]) = true) (e0 e : EagerS)
+    (he0 : eagerBaseS b = .ok e0) (he : eagerS (stages ++ [.label k t]) e0 = .ok (some e)) :
+    ∃ r f ef v, buildS (stages ++ [.label k t]) (baseS b) = .ok (some r) ∧
+      r.feats = .ok f ∧ e.feats = some ef ∧ RefS f ef ∧
+      r.labelVal = .ok v ∧ e.labelVal = some v ∧ r.tipe = .ok t ∧ e.lab.map (·.2) = some t := by
+  rw [eagerS_append] at he
+  cases h1 : eagerS stages e0 with
+  | error er => simp [h1] at he
+  | ok o =>
+    cases o with
+    | none => simp [h1] at he
+    | some e1 =>
+      simp only [h1, eagerS] at he
+      obtain ⟨r1, hr1, href, hwf⟩ := (sparse_refines b stages (leakSafe_append_label _ _ k t hs) e0 he0).1 e1 h1
+      cases h2 : eagerStageS (.label k t) e1 with
+      | error er => simp [h2] at he
+      | ok o2 =>
+        cases o2 with
+        | none => simp [h2] at he
+        | some e2 =>
+          simp [h2] at he; subst he
+          obtain ⟨r, f, ef, v, happ, _, hf, hef, hreff, hl, hel, ht, helab⟩ := labelS_last href hwf k t e2 h2
+          refine ⟨r, f, ef, v, ?_, hf, hef, hreff, hl, hel, ht, helab⟩
+          rw [buildS_append, hr1]
+          simp [buildS, happ]
+
+def cexBaseS : SBase := .plain [(.pos 0, .int 1), (.pos 1, .int 2)]
+def cexStagesS : List Stage := [.label (.pos 1) (some "c"), .encodeMap [(.pos 0, .inc), (.pos 1, .inc)]]
+
+theorem feats_label_sparse_cex' :
+    ∃ r e, buildS cexStagesS (baseS cexBaseS) = .ok (some r) ∧
+      (match eagerBaseS cexBaseS with | .ok e0 => eagerS cexStagesS e0 | .error er => .error er) = .ok (some e) ∧
+      r.items = .ok e.d ∧
+      r.labelVal = .ok (.int 2) ∧ e.labelVal = some (.int 3) := by
+  refine ⟨_, _, rfl, rfl, rfl, rfl, rfl⟩
+
+/-! ### the load-once cell (sparse) -/
+
+theorem touchS_missing (r : SRow) : r.touch.missing = r.missing := by
+  induction r <;> simp_all [SRow.touch, SRow.missing]
+
+theorem touchS_keys (r : SRow) : r.touch.keys = r.keys := by
+  induction r <;> simp_all [SRow.touch, SRow.keys, cell_get_touch]
+
+theorem touchS_len (r : SRow) : r.touch.len = r.len := by
+  induction r with
+  | plain d => rfl
+  | lazy c e n f i m => simp [SRow.touch, SRow.len, cell_get_touch]
+  | head r f i ih => simpa [SRow.touch, SRow.len] using ih
+  | encode r e n ih =>
+    have := touchS_keys (.encode r e n)
+    simp only [SRow.touch] at this
+    simp only [SRow.touch, SRow.len, this]
+  | drop r ds ih =>
+    have := touchS_keys (.drop r ds)
+    simp only [SRow.touch] at this
+    simp only [SRow.touch, SRow.len, this]
+  | label r k t ih =>
+    have := touchS_keys (.label r k t)
+    simp only [SRow.touch] at this
+    simp only [SRow.touch, SRow.len, this]
+
+theorem touchS_get (r : SRow) (k : Key) : r.touch.get k = r.get k := by
+  induction r generalizing k <;> simp_all [SRow.touch, SRow.get, cell_get_touch]
+
+theorem touchS_items (r : SRow) : r.touch.items = r.items := by
+  induction r <;> simp_all [SRow.touch, SRow.items, cell_get_touch]
+
+theorem touchS_labelOf (r : SRow) : r.touch.labelOf = r.labelOf.map (fun p => (p.1.touch, p.2)) := by
+  induction r <;> simp_all [SRow.touch, SRow.labelOf]
+
+theorem touch_obsS (r : SRow) (a : Acc) : obsS r.touch a = obsS r a := by
+  induction a generalizing r with
+  | pos i => rfl
+  | name k => simp [obsS, touchS_get]
+  | iter => simp [obsS, touchS_keys]
+  | keys => simp [obsS, touchS_keys]
+  | items => simp [obsS, touchS_items]
+  | copy => simp [obsS, touchS_items]
+  | len => simp [obsS, touchS_len]
+  | headers => rfl
+  | eq o => cases o <;> simp [obsS, SRow.eqDict, touchS_items]
+  | label =>
+    simp only [obsS, SRow.labelVal, touchS_labelOf]
+    cases r.labelOf with
+    | none => rfl
+    | some p =>
+      have := touchS_get (.label p.1 p.2.1 p.2.2) p.2.1
+      simp only [SRow.touch] at this
+      simp [this]
+  | tipe =>
+    simp only [obsS, SRow.tipe, touchS_labelOf]
+    cases r.labelOf <;> rfl
+  | feats s ih =>
+    simp only [obsS, SRow.feats, touchS_labelOf]
+    cases r.labelOf with
+    | none => rfl
+    | some p => exact ih (.drop p.1 [p.2.1])
+
+theorem runS_eq_map (r : SRow) (as : List Acc) : runS r as = as.map (obsS r) := by
+  induction as generalizing r with
+  | nil => rfl
+  | cons a t ih =>
+    simp only [runS, stepS, List.map_cons, ih]
+    congr 1
+    apply List.map_congr_left
+    intro b _
+    exact touch_obsS r b
+
+/-- a header-mapped LazySparse row (as ArffReader builds them) also answers to its raw integer keys:
+the two-sided by-key statement needs `simpleBase` -/
+def cexLeakBase : SBase := .lazy [(.pos 0, .int 7)] false [] (some ["a"]) false
+
+theorem sparse_get_leak_cex' :
+    ∃ e, eagerBaseS cexLeakBase = .ok e ∧ dget e.d (.pos 0) = none ∧ dget e.d (.name "a") = some (.int 7) ∧
+      (baseS cexLeakBase).get (.pos 0) = .ok (.int 7) ∧ (baseS cexLeakBase).get (.name "a") = .ok (.int 7) ∧
+      Key.pos 0 ∈ (baseS cexLeakBase).leak :=
+  ⟨_, rfl, rfl, rfl, rfl, rfl, by decide⟩
+
+def exBaseS : SBase := .lazy [(.name "a", .str "1"), (.name "b", .str "2")] true [] none false
+def exStagesS : List Stage :=
+  [.encodeMap [(.name "a", .toInt), (.name "c", .toStr)], .drop [.name "b"] none, .label (.name "y") (some "c")]
+
+
+
+/-- the sparse base is a dict or a LazySparse without header map -/
+def simpleBase : SBase → Prop
+  | .plain _ => True
+  | .lazy _ _ _ hdr _ => hdr = none
+  | .arff _ _ _ => False
+
+theorem leakSafe_false (stages : List Stage) : leakSafe false stages = true := by
+  induction stages with
+  | nil => rfl
+  | cons st rest ih =>
+    cases st with
+    | drop cols pred =>
+      cases pred with
+      | none => simpa [leakSafe] using ih
+      | some p => cases p <;> simpa [leakSafe] using ih
+    | _ => simpa [leakSafe] using ih
+
+theorem simpleBase_leak (b : SBase) (h : simpleBase b) : (baseS b).leak = [] := by
+  cases b with
+  | plain d => rfl
+  | lazy d loader enc hdr miss => simp only [simpleBase] at h; subst h; rfl
+  | arff cols raw miss => exact absurd h id
+
+/-- a base without header map has no hidden keys: every pipeline is `leakSafe` over it -/
+theorem leakSafe_of_simpleBase (b : SBase) (h : simpleBase b) (stages : List Stage) :
+    leakSafe (!(baseS b).leak.isEmpty) stages = true := by
+  rw [simpleBase_leak b h]; exact leakSafe_false stages
+
+/-- EncodeCatRows on a lazy dense row = EncodeCatRows on the eager list (all three modes) -/
+theorem enccatD_eq' (m : CatMode) {r : DRow} {e : EagerD} (h : RefD r e) :
+    applyD (.enccat (some m)) r = .ok (some (if hasCat e.cells then .plain (catEncodeList m e.cells) else r)) ∧
+    eagerStageD (.enccat (some m)) e = .ok (some (if hasCat e.cells then ⟨catEncodeList m e.cells, none, none, none⟩ else e)) := by
+  simp only [applyD, eagerStageD, h.iter]
+  constructor <;> split <;> rfl
+
+/-- EncodeCatRows on a lazy sparse row = EncodeCatRows on the eager dict (all three modes) -/
+theorem enccatS_eq' (m : CatMode) {r : SRow} {e : EagerS} (h : RefS r e) (hw : WFS e) :
+    applyS (.enccat (some m)) r = .ok (some (if hasCatD e.d then .plain (catEncodeDict m e.d) else r)) ∧
+    eagerStageS (.enccat (some m)) e = .ok (some (if hasCatD e.d then ⟨catEncodeDict m e.d, none, none, []⟩ else e)) ∧
+    ((catEncodeDict m e.d).map (·.1)).Nodup := by
+  simp only [applyS, eagerStageS, h.items, toDict_of_nodup e.d hw.nodup]
+  refine ⟨?_, ?_, nodup_catEncodeDict m e.d hw.nodup⟩ <;> split <;> rfl
+
+def exArffS : SBase := .arff [⟨"a", .num⟩, ⟨"b", .cat ["p", "q"]⟩] [(.pos 0, .str "3")] false
+def exArffStages : List Stage := [.enccat (some .onehotTuple), .label (.name "b") (some "c")]
+
+end Coba.C13
+
+namespace Coba.C13
+
+/-- the filter objects carry nothing from one `filter()` call to the next: what a table yields in a session is what it yields alone -/
+theorem session_eq_map (fs : List Stage) (ts : List Table) : session fs ts = ts.map (fun t => (runTable fs t).1) := by
+  induction ts generalizing fs with
+  | nil => rfl
+  | cons t rest ih =>
+    have : (runTable fs t).2 = fs := by cases t <;> rfl
+    simp only [session, List.map_cons, this, ih]
+
+theorem session_pair' (fs : List Stage) (A B : Table) : (session fs [A, B])[1]? = (session fs [B])[0]? := by
+  rw [session_eq_map, session_eq_map]; rfl
+
+
+theorem mem_catIdx_aux (vs : List Val) (k : Nat) (v : Val) (i : Nat) (h : (v, i) ∈ vs.zipIdx k) :
+    i ∈ ((vs.zipIdx k).filter (fun p => isCat p.1)).map (·.2) ↔ isCat v = true := by
+  induction vs generalizing k with
+  | nil => simp at h
+  | cons x t ih =>
+    simp only [List.zipIdx_cons, List.mem_cons] at h
+    simp only [List.zipIdx_cons, List.filter_cons]
+    have hge : ∀ p ∈ t.zipIdx (k + 1), k + 1 ≤ p.2 := by
+      intro p hp; have := List.mem_zipIdx hp; omega
+    rcases h with h | h
+    · obtain ⟨rfl, rfl⟩ := Prod.mk.inj h
+      by_cases hc : isCat v = true
+      · simp [hc]
+      · simp only [hc, Bool.false_eq_true, if_false, iff_false]
+        intro hm
+        obtain ⟨p, hp, hpe⟩ := List.mem_map.1 hm
+        have := hge p (List.mem_filter.1 hp).1
+        omega
+    · have hi := hge _ h
+      have hne : i ≠ k := by simp at hi; omega
+      by_cases hc : isCat x = true
+      · simp only [hc, if_true, List.map_cons, List.mem_cons, hne, false_or]
+        exact ih (k + 1) h
+      · simp only [hc, Bool.false_eq_true, if_false]
+        exact ih (k + 1) h
+
+theorem encodeCatCell_not_cat (m : CatMode) (v : Val) (h : isCat v = false) : encodeCatCell m v = [v] := by
+  cases v <;> simp_all [isCat, encodeCatCell]
+
+/-- with the categorical positions of the row itself, the positional encoding is the per-row encoding -/
+theorem catEncodeAt_self (m : CatMode) (vs : List Val) : catEncodeAt m (catIdx vs) vs = .ok (catEncodeList m vs) := by
+  have hall : (catIdx vs).all (fun k => k < vs.length) = true := by
+    simp only [List.all_eq_true, catIdx, List.mem_map, decide_eq_true_eq]
+    rintro k ⟨p, hp, rfl⟩
+    have := List.mem_zipIdx (List.mem_filter.1 hp).1
+    omega
+  have hparts : vs.zipIdx.map (fun p => if (catIdx vs).contains p.2 then encodeCell m p.1 else .ok [p.1])
+      = (vs.zipIdx.map (fun p => encodeCatCell m p.1)).map .ok := by
+    rw [List.map_map]
+    apply List.map_congr_left
+    intro p hp
+    obtain ⟨v, i⟩ := p
+    have hm := mem_catIdx_aux vs 0 v i hp
+    simp only [Function.comp]
+    by_cases hc : isCat v = true
+    · have : (catIdx vs).contains i = true := by
+        rw [List.contains_iff_mem]; exact hm.2 hc
+      simp only [this, if_true, encodeCell, hc]
+    · have hc' : isCat v = false := by simpa using hc
+      have : (catIdx vs).contains i = false := by
+        cases hcc : (catIdx vs).contains i with
+        | false => rfl
+        | true => exact absurd (hm.1 (List.contains_iff_mem.1 hcc)) hc
+      simp only [this, Bool.false_eq_true, if_false, encodeCatCell_not_cat m v hc']
+  have hfl : (vs.zipIdx.map (fun p => encodeCatCell m p.1)).flatten = vs.flatMap (encodeCatCell m) := by
+    have : vs.zipIdx.map (fun p => encodeCatCell m p.1) = vs.map (encodeCatCell m) := by
+      conv => rhs; rw [← List.zipIdx_map_fst 0 vs, List.map_map]
+      rfl
+    rw [this, List.flatMap_def]
+  simp only [catEncodeAt, hall, if_true, hparts, sequence_map_ok, catEncodeList, hfl]
+
+theorem catIdx_isEmpty (vs : List Val) : (catIdx vs).isEmpty = !hasCat vs := by
+  have key : ∀ (l : List Val) (k : Nat), (((l.zipIdx k).filter (fun p => isCat p.1)).map (·.2)).isEmpty = !l.any isCat := by
+    intro l
+    induction l with
+    | nil => intro k; rfl
+    | cons y u ihu =>
+      intro k
+      simp only [List.zipIdx_cons, List.filter_cons, List.any_cons]
+      by_cases hc : isCat y = true
+      · simp [hc]
+      · simp only [hc, Bool.false_eq_true, if_false, Bool.false_or]; exact ihu (k + 1)
+  exact key vs 0
+
+
+theorem headers_error (r : DRow) (e : Err) (h : r.headers = .error e) : e = .attrError := by
+  induction r with
+  | plain v => simp [DRow.headers] at h; exact h.symm
+  | lazy c en hd m => cases hd <;> simp [DRow.headers] at h; exact h.symm
+  | head r hd ih => simp [DRow.headers] at h
+  | encode r es ih => exact ih h
+  | keep r a b c d hd ih => cases hd with
+    | none => exact ih h
+    | some x => simp [DRow.headers] at h
+  | label r i t ih => exact ih h
+  | dropOne r i ih =>
+    simp only [DRow.headers] at h
+    cases hr : r.headers with
+    | error e' => rw [hr] at h; simp at h; subst h; exact ih hr
+    | ok x => rw [hr] at h; simp at h
+
+/-- when the row looks like the first row, deriving the filter's arguments from the first row or from the row itself is the same -/
+theorem applyD1_eq (st : Stage) (f r : DRow) (h : sameShape f r = true) : applyD1 st f r = applyD st r := by
+  simp only [sameShape, Bool.and_eq_true] at h
+  obtain ⟨⟨hlen, hhdr⟩, hit⟩ := h
+  have hlen' : f.len = r.len := by simpa using hlen
+  have hencs : ∀ m, encsOf m f = encsOf m r := by
+    intro m
+    simp only [encsOf, hlen']
+    cases hf : f.headers <;> cases hr : r.headers <;> simp_all
+  have hargs : ∀ cols, dropArgsOf f cols = dropArgsOf r cols := by
+    intro cols
+    simp only [dropArgsOf, hlen']
+    cases hf : f.headers <;> cases hr : r.headers <;> simp_all
+  cases st with
+  | headNames ns => rfl
+  | headMap m => rfl
+  | encodeSeq es => rfl
+  | encodeMap m => simp only [applyD1, applyD, hencs]
+  | drop cols pred => simp only [applyD1, applyD, hargs]
+  | label k t =>
+    cases k with
+    | pos i => rfl
+    | name s =>
+      simp only [applyD1, applyD]
+      cases hf : f.headers with
+      | error e1 =>
+        cases hr : r.headers with
+        | error e2 => rw [headers_error f e1 hf, headers_error r e2 hr]
+        | ok b => simp [hf, hr] at hhdr
+      | ok a =>
+        cases hr : r.headers with
+        | error e2 => simp [hf, hr] at hhdr
+        | ok b => simp [hf, hr] at hhdr; subst hhdr; rfl
+  | enccat t =>
+    cases t with
+    | none => rfl
+    | some m =>
+      simp only [applyD1, applyD]
+      cases hf : f.iter with
+      | error e => simp [hf] at hit
+      | ok fv =>
+        cases hr : r.iter with
+        | error e => simp [hf, hr] at hit
+        | ok vs =>
+          simp only [hf, hr] at hit ⊢
+          have hidx : catIdx fv = catIdx vs := by simpa using hit
+          rw [hidx, catIdx_isEmpty, catEncodeAt_self]
+          cases hasCat vs <;> simp
+
+theorem mapMRes_congr {α β} {f g : α → Res β} {l : List α} (h : ∀ a ∈ l, f a = g a) : mapMRes f l = mapMRes g l := by
+  induction l with
+  | nil => rfl
+  | cons a t ih => simp only [mapMRes, h a (by simp), ih (fun b hb => h b (by simp [hb]))]
+
+theorem stageTable1_eq (st : Stage) (rows : List DRow)
+    (h : (match rows with | [] => true | f :: _ => rows.all (sameShape f)) = true) :
+    stageTable1 st rows = stageTable0 st rows := by
+  cases rows with
+  | nil => rfl
+  | cons f t =>
+    simp only [stageTable1, stageTable0]
+    congr 1
+    apply mapMRes_congr
+    intro r hr
+    exact applyD1_eq st f r (List.all_eq_true.1 h r hr)
+
+/-- on a table whose rows look alike at every stage, looking at the first row (the code) or at each row (the theorems) is the same -/
+theorem runStages1_eq (stages : List Stage) (rows : List DRow) (h : uniformRun stages rows = true) :
+    runStages1 stages rows = runStages0 stages rows := by
+  induction stages generalizing rows with
+  | nil => rfl
+  | cons st rest ih =>
+    simp only [uniformRun, Bool.and_eq_true] at h
+    have h1 := stageTable1_eq st rows h.1
+    simp only [runStages1, runStages0, ← h1]
+    cases hs : stageTable1 st rows with
+    | error e => rfl
+    | ok rows' =>
+      have := h.2
+      simp only [hs] at this
+      exact ih rows' this
+
+theorem collect_ok {α} {rs : Res (List (Option α))} {out : List α} (h : collect rs = .ok out) :
+    ∃ os, rs = .ok os ∧ out = os.filterMap id := by
+  cases rs with
+  | error e => simp [collect] at h
+  | ok os => simp [collect] at h; exact ⟨os, rfl, h.symm⟩
+
+theorem mapMRes_cons_ok {α β} {f : α → Res β} {a : α} {t : List α} {b : β} {bs : List β}
+    (h1 : f a = .ok b) (h2 : mapMRes f t = .ok bs) : mapMRes f (a :: t) = .ok (b :: bs) := by
+  simp only [mapMRes, h1, h2]
+
+theorem buildD_compose (st : Stage) (rest : List Stage) (rows : List DRow) (os1 os2 : List (Option DRow))
+    (h1 : mapMRes (applyD st) rows = .ok os1) (h2 : mapMRes (buildD rest) (os1.filterMap id) = .ok os2) :
+    ∃ os, mapMRes (buildD (st :: rest)) rows = .ok os ∧ os.filterMap id = os2.filterMap id := by
+  induction rows generalizing os1 os2 with
+  | nil =>
+    simp [mapMRes] at h1; subst h1
+    simp [mapMRes] at h2; subst h2
+    exact ⟨[], rfl, rfl⟩
+  | cons r t iht =>
+    simp only [mapMRes] at h1
+    cases ha : applyD st r with
+    | error e => simp [ha] at h1
+    | ok o =>
+      simp only [ha] at h1
+      cases ht : mapMRes (applyD st) t with
+      | error e => simp [ht] at h1
+      | ok ot =>
+        simp [ht] at h1; subst h1
+        cases o with
+        | none =>
+          simp only [List.filterMap_cons, id] at h2
+          obtain ⟨os, hos, ho⟩ := iht ot os2 ht h2
+          exact ⟨none :: os, mapMRes_cons_ok (by simp [buildD, ha]) hos, by simpa using ho⟩
+        | some r1 =>
+          simp only [List.filterMap_cons, id, mapMRes] at h2
+          cases hb : buildD rest r1 with
+          | error e => simp [hb] at h2
+          | ok o1 =>
+            simp only [hb] at h2
+            cases ht2 : mapMRes (buildD rest) (ot.filterMap id) with
+            | error e => simp [ht2] at h2
+            | ok o2 =>
+              simp [ht2] at h2; subst h2
+              obtain ⟨os, hos, ho⟩ := iht ot o2 ht ht2
+              refine ⟨o1 :: os, mapMRes_cons_ok (by simp [buildD, ha, hb]) hos, ?_⟩
+              cases o1 <;> simp [ho]
+
+/-- a table processed stage after stage is the table of the per-row pipelines (`buildD`, what the refinement theorems are about) -/
+theorem runStages0_rows (stages : List Stage) (rows out : List DRow) (h : runStages0 stages rows = .ok out) :
+    ∃ os, mapMRes (buildD stages) rows = .ok os ∧ out = os.filterMap id := by
+  induction stages generalizing rows out with
+  | nil =>
+    simp [runStages0] at h; subst h
+    refine ⟨rows.map some, ?_, by simp [List.filterMap_map]⟩
+    apply mapMRes_of_map
+    simp [buildD]
+  | cons st rest ih =>
+    simp only [runStages0] at h
+    cases hs : stageTable0 st rows with
+    | error e => simp [hs] at h
+    | ok rows1 =>
+      simp only [hs] at h
+      obtain ⟨os1, hos1, hr1⟩ := collect_ok hs
+      obtain ⟨os2, hos2, hout⟩ := ih rows1 out h
+      subst hr1
+      obtain ⟨os, hos, ho⟩ := buildD_compose st rest rows os1 os2 hos1 hos2
+      exact ⟨os, hos, by rw [hout, ho]⟩
+
 end Coba.C13
